@@ -47,6 +47,7 @@ def locNames : List String := [
   "auditor.name",
   "auditorState.activated",
   "auditorState.auditing",
+  "collectedSignal.drawEvents",
   "collectedSignal.hasData",
   "collectorState.badCounts[]",
   "collectorState.errors",
@@ -277,231 +278,231 @@ def «auditor.hasData» : Nat := 36
 def «auditor.name» : Nat := 37
 def «auditorState.activated» : Nat := 38
 def «auditorState.auditing» : Nat := 39
-def «collectedSignal.hasData» : Nat := 40
-def «collectorState.badCounts[]» : Nat := 41
-def «collectorState.errors» : Nat := 42
-def «collectorState.errors[]» : Nat := 43
-def «collectorState.goodCounts[]» : Nat := 44
-def «config.asciiOnly» : Nat := 45
-def «config.authors» : Nat := 46
-def «config.authors[]» : Nat := 47
-def «config.dataDir» : Nat := 48
-def «config.defines» : Nat := 49
-def «config.diffs» : Nat := 50
-def «config.diffs[]» : Nat := 51
-def «config.doPrint» : Nat := 52
-def «config.earlyExit» : Nat := 53
-def «config.extraInterpretation» : Nat := 54
-def «config.extraScript» : Nat := 55
-def «config.includePath» : Nat := 56
-def «config.includePath[]» : Nat := 57
-def «config.keepArtifacts» : Nat := 58
-def «config.pVarNames» : Nat := 59
-def «config.pVarNames[]» : Nat := 60
-def «config.pVars[]» : Nat := 61
-def «config.parseOnly» : Nat := 62
-def «config.play» : Nat := 63
-def «config.play[]» : Nat := 64
-def «config.quiet» : Nat := 65
-def «config.removeAll» : Nat := 66
-def «config.roleNames» : Nat := 67
-def «config.roleNames[]» : Nat := 68
-def «config.roles[]» : Nat := 69
-def «config.seeAlso» : Nat := 70
-def «config.seeAlso[]» : Nat := 71
-def «config.skipPlot» : Nat := 72
-def «config.subDir» : Nat := 73
-def «config.titleStrings» : Nat := 74
-def «config.titleStrings[]» : Nat := 75
-def «config.uploadURL» : Nat := 76
-def «config.varNames» : Nat := 77
-def «config.varNames[]» : Nat := 78
-def «config.vars[]» : Nat := 79
-def «errorCollection.errs» : Nat := 80
-def «errorCollection.errs[]» : Nat := 81
-def «exec.Cmd.Dir» : Nat := 82
-def «exec.Cmd.Stdin» : Nat := 83
-def «exec.Cmd.Stdout» : Nat := 84
-def «exec.Cmd.SysProcAttr» : Nat := 85
-def «fsm.edges» : Nat := 86
-def «fsm.labels» : Nat := 87
-def «fsm.name» : Nat := 88
-def «fsm.startState» : Nat := 89
-def «fsm.stateNames» : Nat := 90
-def «fsmEval.curState» : Nat := 91
-def «fsmEval.fsm» : Nat := 92
-def «fsmEval.labelMap» : Nat := 93
-def «local actor.runActorCommand.outbuf» : Nat := 94
-def «local actor.runActorCommandWithConsumer.stopRead» : Nat := 95
-def «local config.parseRole.parserNames[]» : Nat := 96
-def «local config.preprocReplace.err» : Nat := 97
-def «map[string]bool[]» : Nat := 98
-def «observer.hasData» : Nat := 99
-def «outputFiles.files[]» : Nat := 100
-def «outputFiles.writers[]» : Nat := 101
-def «parser.curLine» : Nat := 102
-def «pflag.Flag.NoOptDefVal» : Nat := 103
-def «plotgroup.plots[]» : Nat := 104
-def «reader.diffs[]» : Nat := 105
-def «reader.readers» : Nat := 106
-def «reader.readers[]» : Nat := 107
-def «role.actionCmds[]» : Nat := 108
-def «role.actionNames» : Nat := 109
-def «role.actionNames[]» : Nat := 110
-def «role.cleanupCmd» : Nat := 111
-def «role.sigNames» : Nat := 112
-def «role.sigNames[]» : Nat := 113
-def «role.sigParsers» : Nat := 114
-def «role.sigParsers[]» : Nat := 115
-def «role.spotlightCmd» : Nat := 116
-def «scene.concurrentLines» : Nat := 117
-def «scene.concurrentLines[]» : Nat := 118
-def «scene.waitUntil» : Nat := 119
-def «scriptLine.steps» : Nat := 120
-def «scriptLine.steps[]» : Nat := 121
-def «sigEvent.values» : Nat := 122
-def «sigEvent.values[]» : Nat := 123
-def «sink.lastVal» : Nat := 124
-def «subreader.lineno» : Nat := 125
-def «subreader.lines» : Nat := 126
-def «subreader.lines[]» : Nat := 127
-def «subreader.parent» : Nat := 128
-def «timeutil.Timer.Read» : Nat := 129
-def «var actionDefRe» : Nat := 130
-def «var activeRe» : Nat := 131
-def «var actorDefRe» : Nat := 132
-def «var actorsRe» : Nat := 133
-def «var adjList» : Nat := 134
-def «var advList» : Nat := 135
-def «var audienceRe» : Nat := 136
-def «var automata» : Nat := 137
-def «var cleanupDefRe» : Nat := 138
-def «var collectFns» : Nat := 139
-def «var collectsRe» : Nat := 140
-def «var computesRe» : Nat := 141
-def «var editRe» : Nat := 142
-def «var entailsRe» : Nat := 143
-def «var errAuditViolation» : Nat := 144
-def «var errInterrupted» : Nat := 145
-def «var evalFunctions» : Nat := 146
-def «var evalFunctions[]» : Nat := 147
-def «var expectsRe» : Nat := 148
-def «var expectsSameRe» : Nat := 149
-def «var foulRe» : Nat := 150
-def «var identRe» : Nat := 151
-def «var ignoreRe» : Nat := 152
-def «var init$guard» : Nat := 153
-def «var interpretationRe» : Nat := 154
-def «var measuresRe» : Nat := 155
-def «var moodChangeRe» : Nat := 156
-def «var narratorCtx» : Nat := 157
-def «var noPlotRe» : Nat := 158
-def «var nounsList» : Nat := 159
-def «var paramRe» : Nat := 160
-def «var parseDefRe» : Nat := 161
-def «var preprocRe» : Nat := 162
-def «var registry» : Nat := 163
-def «var repeatAlwaysRe» : Nat := 164
-def «var repeatCountRe» : Nat := 165
-def «var repeatRe» : Nat := 166
-def «var repeatTimeoutRe» : Nat := 167
-def «var roleRe» : Nat := 168
-def «var scriptRe» : Nat := 169
-def «var spotlightDefRe» : Nat := 170
-def «var storyLineRe» : Nat := 171
-def «var tempoRe» : Nat := 172
-def «var watchRe» : Nat := 173
-def «var watchVarRe» : Nat := 174
-def «variable.watcherNames» : Nat := 175
-def «variable.watcherNames[]» : Nat := 176
-def «variable.watchers[]» : Nat := 177
-def «workerRegistry.mu.numWorkers» : Nat := 178
-def «workerRegistry.mu.workers[]» : Nat := 179
-def «Artifact.ContentType» : Nat := 180
-def «Artifact.FileName» : Nat := 181
-def «Artifact.Icon» : Nat := 182
-def «Artifact.IsDir» : Nat := 183
-def «Artifact.Path» : Nat := 184
-def «RepeatSection.StartTime» : Nat := 185
-def «Result.Authors» : Nat := 186
-def «Result.Config» : Nat := 187
-def «Result.ConfigHTML» : Nat := 188
-def «Result.ConfigHash» : Nat := 189
-def «Result.ConfigHashHTML» : Nat := 190
-def «Result.Diffs» : Nat := 191
-def «Result.Error» : Nat := 192
-def «Result.Foul» : Nat := 193
-def «Result.MaxTime» : Nat := 194
-def «Result.MinTime» : Nat := 195
-def «Result.PlayDuration» : Nat := 196
-def «Result.PlayDurationVerbose» : Nat := 197
-def «Result.Repeat» : Nat := 198
-def «Result.SeeAlso» : Nat := 199
-def «Result.Steps» : Nat := 200
-def «Result.StepsHTML» : Nat := 201
-def «Result.Timestamp» : Nat := 202
-def «Result.TimestampHTML» : Nat := 203
-def «Result.Title» : Nat := 204
-def «Result.Version» : Nat := 205
-def «[]*logtags.Buffer[]» : Nat := 206
-def «[]func()[]» : Nat := 207
-def «[]reflect.Value[]» : Nat := 208
-def «[]string[]» : Nat := 209
-def «actChange.actNum» : Nat := 210
-def «actChange.ts» : Nat := 211
-def «actionGroup.actions» : Nat := 212
-def «actionGroup.actions[]» : Nat := 213
-def «actionGroup.actor» : Nat := 214
-def «actionReport.action» : Nat := 215
-def «actionReport.actor» : Nat := 216
-def «actionReport.duration» : Nat := 217
-def «actionReport.extOutput» : Nat := 218
-def «actionReport.output» : Nat := 219
-def «actionReport.result» : Nat := 220
-def «actionReport.startTime» : Nat := 221
-def «actor.actionScripts» : Nat := 222
-def «actor.extraEnv» : Nat := 223
-def «actor.name» : Nat := 224
-def «actor.role» : Nat := 225
-def «actor.shellPath» : Nat := 226
-def «actor.sinkNames» : Nat := 227
-def «actor.sinkNames[]» : Nat := 228
-def «actor.sinks» : Nat := 229
-def «actor.sinks[]» : Nat := 230
-def «app.cfg» : Nat := 231
-def «app.endCh» : Nat := 232
-def «app.log» : Nat := 233
-def «assignment.N» : Nat := 234
-def «assignment.assignMode» : Nat := 235
-def «assignment.targetVar» : Nat := 236
-def «audClause.defines» : Nat := 237
-def «audClause.text» : Nat := 238
-def «audClause.uses» : Nat := 239
-def «audClause.uses[]» : Nat := 240
-def «audienceMember.name» : Nat := 241
-def «auditError.auditor» : Nat := 242
-def «auditError.error» : Nat := 243
-def «auditError.ts» : Nat := 244
-def «auditableValue.typ» : Nat := 245
-def «auditableValue.val» : Nat := 246
-def «audition.cfg» : Nat := 247
-def «audition.collCh» : Nat := 248
-def «audition.errCh» : Nat := 249
-def «audition.eventCh» : Nat := 250
-def «audition.logger» : Nat := 251
-def «audition.r» : Nat := 252
-def «audition.res» : Nat := 253
-def «audition.stopper» : Nat := 254
-def «auditionReport.auditor» : Nat := 255
-def «auditionReport.ts» : Nat := 256
-def «auditionState.auditorStates» : Nat := 257
-def «auditionState.curActivated» : Nat := 258
-def «auditionState.curVals» : Nat := 259
-def «auditor.assignments» : Nat := 260
-def «auditor.expectFsm» : Nat := 261
-def «auditor.foulOnBad» : Nat := 262
-def «auditor.foulOnGood» : Nat := 263
-def «collectedSignal.drawEvents» : Nat := 264
+def «collectedSignal.drawEvents» : Nat := 40
+def «collectedSignal.hasData» : Nat := 41
+def «collectorState.badCounts[]» : Nat := 42
+def «collectorState.errors» : Nat := 43
+def «collectorState.errors[]» : Nat := 44
+def «collectorState.goodCounts[]» : Nat := 45
+def «config.asciiOnly» : Nat := 46
+def «config.authors» : Nat := 47
+def «config.authors[]» : Nat := 48
+def «config.dataDir» : Nat := 49
+def «config.defines» : Nat := 50
+def «config.diffs» : Nat := 51
+def «config.diffs[]» : Nat := 52
+def «config.doPrint» : Nat := 53
+def «config.earlyExit» : Nat := 54
+def «config.extraInterpretation» : Nat := 55
+def «config.extraScript» : Nat := 56
+def «config.includePath» : Nat := 57
+def «config.includePath[]» : Nat := 58
+def «config.keepArtifacts» : Nat := 59
+def «config.pVarNames» : Nat := 60
+def «config.pVarNames[]» : Nat := 61
+def «config.pVars[]» : Nat := 62
+def «config.parseOnly» : Nat := 63
+def «config.play» : Nat := 64
+def «config.play[]» : Nat := 65
+def «config.quiet» : Nat := 66
+def «config.removeAll» : Nat := 67
+def «config.roleNames» : Nat := 68
+def «config.roleNames[]» : Nat := 69
+def «config.roles[]» : Nat := 70
+def «config.seeAlso» : Nat := 71
+def «config.seeAlso[]» : Nat := 72
+def «config.skipPlot» : Nat := 73
+def «config.subDir» : Nat := 74
+def «config.titleStrings» : Nat := 75
+def «config.titleStrings[]» : Nat := 76
+def «config.uploadURL» : Nat := 77
+def «config.varNames» : Nat := 78
+def «config.varNames[]» : Nat := 79
+def «config.vars[]» : Nat := 80
+def «errorCollection.errs» : Nat := 81
+def «errorCollection.errs[]» : Nat := 82
+def «exec.Cmd.Dir» : Nat := 83
+def «exec.Cmd.Stdin» : Nat := 84
+def «exec.Cmd.Stdout» : Nat := 85
+def «exec.Cmd.SysProcAttr» : Nat := 86
+def «fsm.edges» : Nat := 87
+def «fsm.labels» : Nat := 88
+def «fsm.name» : Nat := 89
+def «fsm.startState» : Nat := 90
+def «fsm.stateNames» : Nat := 91
+def «fsmEval.curState» : Nat := 92
+def «fsmEval.fsm» : Nat := 93
+def «fsmEval.labelMap» : Nat := 94
+def «local actor.runActorCommand.outbuf» : Nat := 95
+def «local actor.runActorCommandWithConsumer.stopRead» : Nat := 96
+def «local config.parseRole.parserNames[]» : Nat := 97
+def «local config.preprocReplace.err» : Nat := 98
+def «map[string]bool[]» : Nat := 99
+def «observer.hasData» : Nat := 100
+def «outputFiles.files[]» : Nat := 101
+def «outputFiles.writers[]» : Nat := 102
+def «parser.curLine» : Nat := 103
+def «pflag.Flag.NoOptDefVal» : Nat := 104
+def «plotgroup.plots[]» : Nat := 105
+def «reader.diffs[]» : Nat := 106
+def «reader.readers» : Nat := 107
+def «reader.readers[]» : Nat := 108
+def «role.actionCmds[]» : Nat := 109
+def «role.actionNames» : Nat := 110
+def «role.actionNames[]» : Nat := 111
+def «role.cleanupCmd» : Nat := 112
+def «role.sigNames» : Nat := 113
+def «role.sigNames[]» : Nat := 114
+def «role.sigParsers» : Nat := 115
+def «role.sigParsers[]» : Nat := 116
+def «role.spotlightCmd» : Nat := 117
+def «scene.concurrentLines» : Nat := 118
+def «scene.concurrentLines[]» : Nat := 119
+def «scene.waitUntil» : Nat := 120
+def «scriptLine.steps» : Nat := 121
+def «scriptLine.steps[]» : Nat := 122
+def «sigEvent.values» : Nat := 123
+def «sigEvent.values[]» : Nat := 124
+def «sink.lastVal» : Nat := 125
+def «subreader.lineno» : Nat := 126
+def «subreader.lines» : Nat := 127
+def «subreader.lines[]» : Nat := 128
+def «subreader.parent» : Nat := 129
+def «timeutil.Timer.Read» : Nat := 130
+def «var actionDefRe» : Nat := 131
+def «var activeRe» : Nat := 132
+def «var actorDefRe» : Nat := 133
+def «var actorsRe» : Nat := 134
+def «var adjList» : Nat := 135
+def «var advList» : Nat := 136
+def «var audienceRe» : Nat := 137
+def «var automata» : Nat := 138
+def «var cleanupDefRe» : Nat := 139
+def «var collectFns» : Nat := 140
+def «var collectsRe» : Nat := 141
+def «var computesRe» : Nat := 142
+def «var editRe» : Nat := 143
+def «var entailsRe» : Nat := 144
+def «var errAuditViolation» : Nat := 145
+def «var errInterrupted» : Nat := 146
+def «var evalFunctions» : Nat := 147
+def «var evalFunctions[]» : Nat := 148
+def «var expectsRe» : Nat := 149
+def «var expectsSameRe» : Nat := 150
+def «var foulRe» : Nat := 151
+def «var identRe» : Nat := 152
+def «var ignoreRe» : Nat := 153
+def «var init$guard» : Nat := 154
+def «var interpretationRe» : Nat := 155
+def «var measuresRe» : Nat := 156
+def «var moodChangeRe» : Nat := 157
+def «var narratorCtx» : Nat := 158
+def «var noPlotRe» : Nat := 159
+def «var nounsList» : Nat := 160
+def «var paramRe» : Nat := 161
+def «var parseDefRe» : Nat := 162
+def «var preprocRe» : Nat := 163
+def «var registry» : Nat := 164
+def «var repeatAlwaysRe» : Nat := 165
+def «var repeatCountRe» : Nat := 166
+def «var repeatRe» : Nat := 167
+def «var repeatTimeoutRe» : Nat := 168
+def «var roleRe» : Nat := 169
+def «var scriptRe» : Nat := 170
+def «var spotlightDefRe» : Nat := 171
+def «var storyLineRe» : Nat := 172
+def «var tempoRe» : Nat := 173
+def «var watchRe» : Nat := 174
+def «var watchVarRe» : Nat := 175
+def «variable.watcherNames» : Nat := 176
+def «variable.watcherNames[]» : Nat := 177
+def «variable.watchers[]» : Nat := 178
+def «workerRegistry.mu.numWorkers» : Nat := 179
+def «workerRegistry.mu.workers[]» : Nat := 180
+def «Artifact.ContentType» : Nat := 181
+def «Artifact.FileName» : Nat := 182
+def «Artifact.Icon» : Nat := 183
+def «Artifact.IsDir» : Nat := 184
+def «Artifact.Path» : Nat := 185
+def «RepeatSection.StartTime» : Nat := 186
+def «Result.Authors» : Nat := 187
+def «Result.Config» : Nat := 188
+def «Result.ConfigHTML» : Nat := 189
+def «Result.ConfigHash» : Nat := 190
+def «Result.ConfigHashHTML» : Nat := 191
+def «Result.Diffs» : Nat := 192
+def «Result.Error» : Nat := 193
+def «Result.Foul» : Nat := 194
+def «Result.MaxTime» : Nat := 195
+def «Result.MinTime» : Nat := 196
+def «Result.PlayDuration» : Nat := 197
+def «Result.PlayDurationVerbose» : Nat := 198
+def «Result.Repeat» : Nat := 199
+def «Result.SeeAlso» : Nat := 200
+def «Result.Steps» : Nat := 201
+def «Result.StepsHTML» : Nat := 202
+def «Result.Timestamp» : Nat := 203
+def «Result.TimestampHTML» : Nat := 204
+def «Result.Title» : Nat := 205
+def «Result.Version» : Nat := 206
+def «[]*logtags.Buffer[]» : Nat := 207
+def «[]func()[]» : Nat := 208
+def «[]reflect.Value[]» : Nat := 209
+def «[]string[]» : Nat := 210
+def «actChange.actNum» : Nat := 211
+def «actChange.ts» : Nat := 212
+def «actionGroup.actions» : Nat := 213
+def «actionGroup.actions[]» : Nat := 214
+def «actionGroup.actor» : Nat := 215
+def «actionReport.action» : Nat := 216
+def «actionReport.actor» : Nat := 217
+def «actionReport.duration» : Nat := 218
+def «actionReport.extOutput» : Nat := 219
+def «actionReport.output» : Nat := 220
+def «actionReport.result» : Nat := 221
+def «actionReport.startTime» : Nat := 222
+def «actor.actionScripts» : Nat := 223
+def «actor.extraEnv» : Nat := 224
+def «actor.name» : Nat := 225
+def «actor.role» : Nat := 226
+def «actor.shellPath» : Nat := 227
+def «actor.sinkNames» : Nat := 228
+def «actor.sinkNames[]» : Nat := 229
+def «actor.sinks» : Nat := 230
+def «actor.sinks[]» : Nat := 231
+def «app.cfg» : Nat := 232
+def «app.endCh» : Nat := 233
+def «app.log» : Nat := 234
+def «assignment.N» : Nat := 235
+def «assignment.assignMode» : Nat := 236
+def «assignment.targetVar» : Nat := 237
+def «audClause.defines» : Nat := 238
+def «audClause.text» : Nat := 239
+def «audClause.uses» : Nat := 240
+def «audClause.uses[]» : Nat := 241
+def «audienceMember.name» : Nat := 242
+def «auditError.auditor» : Nat := 243
+def «auditError.error» : Nat := 244
+def «auditError.ts» : Nat := 245
+def «auditableValue.typ» : Nat := 246
+def «auditableValue.val» : Nat := 247
+def «audition.cfg» : Nat := 248
+def «audition.collCh» : Nat := 249
+def «audition.errCh» : Nat := 250
+def «audition.eventCh» : Nat := 251
+def «audition.logger» : Nat := 252
+def «audition.r» : Nat := 253
+def «audition.res» : Nat := 254
+def «audition.stopper» : Nat := 255
+def «auditionReport.auditor» : Nat := 256
+def «auditionReport.ts» : Nat := 257
+def «auditionState.auditorStates» : Nat := 258
+def «auditionState.curActivated» : Nat := 259
+def «auditionState.curVals» : Nat := 260
+def «auditor.assignments» : Nat := 261
+def «auditor.expectFsm» : Nat := 262
+def «auditor.foulOnBad» : Nat := 263
+def «auditor.foulOnGood» : Nat := 264
 def «collector.cfg» : Nat := 265
 def «collector.errCh» : Nat := 266
 def «collector.eventCh» : Nat := 267
@@ -753,7 +754,7 @@ def g9 : List Access := [
 
 /-- actor.hasData -/
 def g10 : List Access := [
-  A 7 10 true false [] true [],  -- collector.collectActionReport collector.go:432 
+  A 7 10 true false [] true [],  -- collector.collectActionReport collector.go:437 
   A 0 10 false false [] false [(1, .post), (2, .mid), (3, .mid), (4, .mid)]  -- app.subPlots$1 plot.go:240 
 ]
 
@@ -776,7 +777,7 @@ def g12 : List Access := [
 /-- app.isTerminal -/
 def g13 : List Access := [
   A 15 13 false false [] true [],  -- app.witness app.go:174 
-  A 8 13 false false [] true [],  -- app.judge app.go:194 
+  A 8 13 false false [] true [],  -- app.judge app.go:195 
   A 7 13 false false [] true [],  -- app.narrate app.go:157 
   A 0 13 false false [] false [(1, .mid), (2, .mid), (3, .mid), (4, .mid)],  -- app.narrate app.go:157 
   A 0 13 true false [] false [(1, .pre), (2, .pre), (3, .pre), (4, .pre)],  -- app.prepareTerm app.go:88 
@@ -831,7 +832,7 @@ def g17 : List Access := [
 def g18 : List Access := [
   A 15 18 false true [] true [],  -- app.witness app.go:173 
   A 4 18 true true [] false [],  -- app.setTerminalSize app.go:112 
-  A 8 18 false true [] true [],  -- app.judge app.go:193 
+  A 8 18 false true [] true [],  -- app.judge app.go:194 
   A 0 18 true true [] false [(1, .pre), (2, .pre), (3, .pre), (4, .pre)],  -- app.setTerminalSize app.go:112 
   A 11 18 false true [] true [(14, .mid), (15, .pre), (16, .pre)]  -- app.witness app.go:173 
 ]
@@ -947,16 +948,16 @@ def g35 : List Access := [
 def g36 : List Access := [
   A 1 36 false false [] true [(5, .post), (6, .post), (7, .post), (8, .post)],  -- collector.checkAuditViolations collector.go:225 
   A 7 36 false false [] true [],  -- collector.checkAuditViolations collector.go:225 
-  A 7 36 true false [] true [],  -- collector.collectAuditionReport collector.go:345 
+  A 7 36 true false [] true [],  -- collector.collectAuditionReport collector.go:350 
   A 0 36 false false [] false [(1, .post), (2, .mid), (3, .mid), (4, .mid)]  -- app.subPlots plot.go:169 
 ]
 
 /-- auditor.name -/
 def g37 : List Access := [
-  A 1 37 false false [] true [(5, .post), (6, .post), (7, .post), (8, .post)],  -- collector.isPlayFouledByDisappointment collector.go:399 
+  A 1 37 false false [] true [(5, .post), (6, .post), (7, .post), (8, .post)],  -- collector.isPlayFouledByDisappointment collector.go:404 
   A 1 37 true false [] true [(5, .pre), (6, .pre), (7, .pre), (8, .pre)],  -- makeAuditionState audit.go:149 
   A 8 37 false false [] true [],  -- audition.processAssignments audit.go:497 
-  A 7 37 false false [] true [],  -- collector.isPlayFouledByDisappointment collector.go:399 
+  A 7 37 false false [] true [],  -- collector.isPlayFouledByDisappointment collector.go:404 
   A 0 37 false false [] false [(2, .mid), (3, .mid), (4, .mid)]  -- auditor.fmtFoul config.go:818 
 ]
 
@@ -972,1001 +973,1007 @@ def g39 : List Access := [
   A 8 39 true false [] true []  -- audition.checkEventForAuditor audit.go:469 
 ]
 
-/-- collectedSignal.hasData -/
+/-- collectedSignal.drawEvents -/
 def g40 : List Access := [
-  A 7 40 true false [] true [],  -- collector.collectObservation collector.go:306 
-  A 0 40 false false [] false [(1, .post), (2, .mid), (3, .mid), (4, .mid)]  -- app.subPlots plot.go:141 
+  A 7 40 true false [] true [],  -- collector.collectObservation collector.go:310 
+  A 0 40 false false [] false [(1, .post), (2, .mid), (3, .mid), (4, .mid)]  -- app.subPlots plot.go:153 
+]
+
+/-- collectedSignal.hasData -/
+def g41 : List Access := [
+  A 7 41 true false [] true [],  -- collector.collectObservation collector.go:306 
+  A 0 41 false false [] false [(1, .post), (2, .mid), (3, .mid), (4, .mid)]  -- app.subPlots plot.go:141 
 ]
 
 /-- collectorState.badCounts[] -/
-def g41 : List Access := [
-  A 1 41 false false [] true [(5, .post), (6, .post), (7, .post), (8, .post)],  -- collector.isPlayFouledByDisappointment collector.go:399 
-  A 7 41 false false [] true [],  -- collector.isPlayFouledByDisappointment collector.go:399 
-  A 7 41 true false [] true []  -- collector.processAuditResult collector.go:382 
+def g42 : List Access := [
+  A 1 42 false false [] true [(5, .post), (6, .post), (7, .post), (8, .post)],  -- collector.isPlayFouledByDisappointment collector.go:404 
+  A 7 42 false false [] true [],  -- collector.isPlayFouledByDisappointment collector.go:404 
+  A 7 42 true false [] true []  -- collector.processAuditResult collector.go:387 
 ]
 
 /-- collectorState.errors -/
-def g42 : List Access := [
-  A 1 42 false false [] true [(5, .post), (6, .post), (7, .post), (8, .post)],  -- collector.checkAuditViolations collector.go:216 
-  A 7 42 false false [] true [],  -- collector.checkAuditViolations collector.go:216 
-  A 7 42 true false [] true []  -- collector.processAuditResult collector.go:374 
+def g43 : List Access := [
+  A 1 43 false false [] true [(5, .post), (6, .post), (7, .post), (8, .post)],  -- collector.checkAuditViolations collector.go:216 
+  A 7 43 false false [] true [],  -- collector.checkAuditViolations collector.go:216 
+  A 7 43 true false [] true []  -- collector.processAuditResult collector.go:379 
 ]
 
 /-- collectorState.errors[] -/
-def g43 : List Access := [
-  A 7 43 true false [] true []  -- collector.processAuditResult collector.go:374 
+def g44 : List Access := [
+  A 7 44 true false [] true []  -- collector.processAuditResult collector.go:379 
 ]
 
 /-- collectorState.goodCounts[] -/
-def g44 : List Access := [
-  A 1 44 false false [] true [(5, .post), (6, .post), (7, .post), (8, .post)],  -- collector.isPlayFouledBySatisfaction collector.go:412 
-  A 7 44 false false [] true [],  -- collector.isPlayFouledBySatisfaction collector.go:412 
-  A 7 44 true false [] true []  -- collector.processAuditResult collector.go:380 
+def g45 : List Access := [
+  A 1 45 false false [] true [(5, .post), (6, .post), (7, .post), (8, .post)],  -- collector.isPlayFouledBySatisfaction collector.go:417 
+  A 7 45 false false [] true [],  -- collector.isPlayFouledBySatisfaction collector.go:417 
+  A 7 45 true false [] true []  -- collector.processAuditResult collector.go:385 
 ]
 
 /-- config.asciiOnly -/
-def g45 : List Access := [
-  A 15 45 false false [] true [],  -- app.witness app.go:170 
-  A 8 45 false false [] true [],  -- app.judge app.go:190 
-  A 7 45 false false [] true [],  -- app.narrate app.go:151 
-  A 0 45 false false [] false [(1, .mid), (2, .mid), (3, .mid), (4, .mid)],  -- app.narrate app.go:151 
-  A 0 45 false false [] false [(1, .post), (2, .mid), (3, .mid), (4, .mid)],  -- app.showArtifactDirRec app.go:251 
-  A 0 45 true false [] false [(1, .pre), (2, .pre), (3, .pre), (4, .pre)],  -- config.initArgs config.go:138 ext:spf13/pflag.BoolVar
-  A 10 45 false false [] true [(13, .mid), (14, .mid)],  -- app.narrate app.go:151 
-  A 5 45 false false [] true [(10, .mid)],  -- app.narrate app.go:151 
-  A 11 45 false false [] true [(14, .mid), (15, .post), (16, .mid)],  -- app.narrate app.go:151 
-  A 11 45 false false [] true [(14, .mid), (15, .pre), (16, .pre)]  -- app.witness app.go:170 
+def g46 : List Access := [
+  A 15 46 false false [] true [],  -- app.witness app.go:170 
+  A 8 46 false false [] true [],  -- app.judge app.go:191 
+  A 7 46 false false [] true [],  -- app.narrate app.go:151 
+  A 0 46 false false [] false [(1, .mid), (2, .mid), (3, .mid), (4, .mid)],  -- app.narrate app.go:151 
+  A 0 46 false false [] false [(1, .post), (2, .mid), (3, .mid), (4, .mid)],  -- app.showArtifactDirRec app.go:252 
+  A 0 46 true false [] false [(1, .pre), (2, .pre), (3, .pre), (4, .pre)],  -- config.initArgs config.go:138 ext:spf13/pflag.BoolVar
+  A 10 46 false false [] true [(13, .mid), (14, .mid)],  -- app.narrate app.go:151 
+  A 5 46 false false [] true [(10, .mid)],  -- app.narrate app.go:151 
+  A 11 46 false false [] true [(14, .mid), (15, .post), (16, .mid)],  -- app.narrate app.go:151 
+  A 11 46 false false [] true [(14, .mid), (15, .pre), (16, .pre)]  -- app.witness app.go:170 
 ]
 
 /-- config.authors -/
-def g46 : List Access := [
-  A 0 46 false false [] false [(1, .post), (2, .mid), (3, .mid), (4, .mid)],  -- app.assemble result.go:138 
-  A 0 46 false false [] false [(1, .pre), (2, .pre), (3, .pre), (4, .mid)],  -- app.intro app.go:211 
-  A 0 46 false false [] false [(1, .pre), (2, .pre), (3, .pre), (4, .pre)],  -- config.parseCfg parsecfg.go:52 
-  A 0 46 true false [] false [(1, .pre), (2, .pre), (3, .pre), (4, .pre)],  -- config.parseCfg parsecfg.go:52 
-  A 0 46 false false [] false [(2, .mid), (3, .mid), (4, .mid)]  -- config.printCfg config.go:330 
+def g47 : List Access := [
+  A 0 47 false false [] false [(1, .post), (2, .mid), (3, .mid), (4, .mid)],  -- app.assemble result.go:138 
+  A 0 47 false false [] false [(1, .pre), (2, .pre), (3, .pre), (4, .mid)],  -- app.intro app.go:212 
+  A 0 47 false false [] false [(1, .pre), (2, .pre), (3, .pre), (4, .pre)],  -- config.parseCfg parsecfg.go:52 
+  A 0 47 true false [] false [(1, .pre), (2, .pre), (3, .pre), (4, .pre)],  -- config.parseCfg parsecfg.go:52 
+  A 0 47 false false [] false [(2, .mid), (3, .mid), (4, .mid)]  -- config.printCfg config.go:330 
 ]
 
 /-- config.authors[] -/
-def g47 : List Access := [
-  A 0 47 true false [] false [(1, .pre), (2, .pre), (3, .pre), (4, .pre)],  -- config.parseCfg parsecfg.go:52 
-  A 0 47 false false [] false [(2, .mid), (3, .mid), (4, .mid)]  -- config.printCfg ? 
+def g48 : List Access := [
+  A 0 48 true false [] false [(1, .pre), (2, .pre), (3, .pre), (4, .pre)],  -- config.parseCfg parsecfg.go:52 
+  A 0 48 false false [] false [(2, .mid), (3, .mid), (4, .mid)]  -- config.printCfg ? 
 ]
 
 /-- config.dataDir -/
-def g48 : List Access := [
-  A 7 48 false false [] true [],  -- collector.collect collector.go:153 
-  A 0 48 false false [] false [(1, .post), (2, .mid), (3, .mid), (4, .mid)],  -- app.collectArtifacts result.go:211 
-  A 0 48 false false [] false [(2, .mid), (3, .mid), (4, .mid)],  -- config.artifactsDir config.go:242 
-  A 0 48 true false [] false [(1, .pre), (2, .pre), (3, .pre), (4, .pre)],  -- config.initArgs config.go:129 ext:spf13/pflag.StringVarP
-  A 0 48 false false [] false [(1, .pre), (2, .pre), (3, .pre), (4, .pre)]  -- config.prepareDirs config.go:185 
+def g49 : List Access := [
+  A 7 49 false false [] true [],  -- collector.collect collector.go:153 
+  A 0 49 false false [] false [(1, .post), (2, .mid), (3, .mid), (4, .mid)],  -- app.collectArtifacts result.go:211 
+  A 0 49 false false [] false [(2, .mid), (3, .mid), (4, .mid)],  -- config.artifactsDir config.go:242 
+  A 0 49 true false [] false [(1, .pre), (2, .pre), (3, .pre), (4, .pre)],  -- config.initArgs config.go:129 ext:spf13/pflag.StringVarP
+  A 0 49 false false [] false [(1, .pre), (2, .pre), (3, .pre), (4, .pre)]  -- config.prepareDirs config.go:185 
 ]
 
 /-- config.defines -/
-def g49 : List Access := [
-  A 0 49 true false [] false [(1, .pre), (2, .pre), (3, .pre), (4, .pre)],  -- config.initArgs config.go:144 ext:spf13/pflag.StringSliceVarP
-  A 0 49 false false [] false [(1, .pre), (2, .pre), (3, .pre), (4, .pre)]  -- config.parseDefines config.go:250 
+def g50 : List Access := [
+  A 0 50 true false [] false [(1, .pre), (2, .pre), (3, .pre), (4, .pre)],  -- config.initArgs config.go:144 ext:spf13/pflag.StringSliceVarP
+  A 0 50 false false [] false [(1, .pre), (2, .pre), (3, .pre), (4, .pre)]  -- config.parseDefines config.go:250 
 ]
 
 /-- config.diffs -/
-def g50 : List Access := [
-  A 0 50 false false [] false [(1, .pre), (2, .pre), (3, .pre), (4, .pre)],  -- Run$1 run.go:51 
-  A 0 50 true false [] false [(1, .pre), (2, .pre), (3, .pre), (4, .pre)],  -- Run$1 run.go:52 
-  A 0 50 false false [] false [(1, .post), (2, .mid), (3, .mid), (4, .mid)]  -- app.assemble result.go:147 
+def g51 : List Access := [
+  A 0 51 false false [] false [(1, .pre), (2, .pre), (3, .pre), (4, .pre)],  -- Run$1 run.go:51 
+  A 0 51 true false [] false [(1, .pre), (2, .pre), (3, .pre), (4, .pre)],  -- Run$1 run.go:52 
+  A 0 51 false false [] false [(1, .post), (2, .mid), (3, .mid), (4, .mid)]  -- app.assemble result.go:147 
 ]
 
 /-- config.diffs[] -/
-def g51 : List Access := [
-  A 0 51 true false [] false [(1, .pre), (2, .pre), (3, .pre), (4, .pre)],  -- Run$1 run.go:55 
-  A 0 51 false false [] false [(1, .post), (2, .mid), (3, .mid), (4, .mid)]  -- app.assemble result.go:203 
+def g52 : List Access := [
+  A 0 52 true false [] false [(1, .pre), (2, .pre), (3, .pre), (4, .pre)],  -- Run$1 run.go:55 
+  A 0 52 false false [] false [(1, .post), (2, .mid), (3, .mid), (4, .mid)]  -- app.assemble result.go:203 
 ]
 
 /-- config.doPrint -/
-def g52 : List Access := [
-  A 0 52 false false [] false [(1, .pre), (2, .pre), (3, .pre), (4, .pre)],  -- Run run.go:112 
-  A 0 52 true false [] false [(1, .pre), (2, .pre), (3, .pre), (4, .pre)]  -- config.initArgs config.go:133 ext:spf13/pflag.BoolVarP
+def g53 : List Access := [
+  A 0 53 false false [] false [(1, .pre), (2, .pre), (3, .pre), (4, .pre)],  -- Run run.go:112 
+  A 0 53 true false [] false [(1, .pre), (2, .pre), (3, .pre), (4, .pre)]  -- config.initArgs config.go:133 ext:spf13/pflag.BoolVarP
 ]
 
 /-- config.earlyExit -/
-def g53 : List Access := [
-  A 7 53 false false [] true [],  -- collector.processAuditResult collector.go:384 
-  A 0 53 true false [] false [(1, .pre), (2, .pre), (3, .pre), (4, .pre)]  -- config.initArgs config.go:136 ext:spf13/pflag.BoolVarP
+def g54 : List Access := [
+  A 7 54 false false [] true [],  -- collector.processAuditResult collector.go:389 
+  A 0 54 true false [] false [(1, .pre), (2, .pre), (3, .pre), (4, .pre)]  -- config.initArgs config.go:136 ext:spf13/pflag.BoolVarP
 ]
 
 /-- config.extraInterpretation -/
-def g54 : List Access := [
-  A 0 54 false false [] false [(1, .pre), (2, .pre), (3, .pre), (4, .pre)],  -- Run run.go:98 
-  A 0 54 true false [] false [(1, .pre), (2, .pre), (3, .pre), (4, .pre)]  -- config.initArgs config.go:143 ext:spf13/pflag.StringSliceVarP
+def g55 : List Access := [
+  A 0 55 false false [] false [(1, .pre), (2, .pre), (3, .pre), (4, .pre)],  -- Run run.go:98 
+  A 0 55 true false [] false [(1, .pre), (2, .pre), (3, .pre), (4, .pre)]  -- config.initArgs config.go:143 ext:spf13/pflag.StringSliceVarP
 ]
 
 /-- config.extraScript -/
-def g55 : List Access := [
-  A 0 55 false false [] false [(1, .pre), (2, .pre), (3, .pre), (4, .pre)],  -- Run run.go:79 
-  A 0 55 true false [] false [(1, .pre), (2, .pre), (3, .pre), (4, .pre)]  -- config.initArgs config.go:142 ext:spf13/pflag.StringSliceVarP
+def g56 : List Access := [
+  A 0 56 false false [] false [(1, .pre), (2, .pre), (3, .pre), (4, .pre)],  -- Run run.go:79 
+  A 0 56 true false [] false [(1, .pre), (2, .pre), (3, .pre), (4, .pre)]  -- config.initArgs config.go:142 ext:spf13/pflag.StringSliceVarP
 ]
 
 /-- config.includePath -/
-def g56 : List Access := [
-  A 0 56 false false [] false [(1, .pre), (2, .pre), (3, .pre), (4, .pre)],  -- Run$2 run.go:63 
-  A 0 56 true false [] false [(1, .pre), (2, .pre), (3, .pre), (4, .pre)]  -- config.initArgs config.go:137 ext:spf13/pflag.StringSliceVarP
+def g57 : List Access := [
+  A 0 57 false false [] false [(1, .pre), (2, .pre), (3, .pre), (4, .pre)],  -- Run$2 run.go:63 
+  A 0 57 true false [] false [(1, .pre), (2, .pre), (3, .pre), (4, .pre)]  -- config.initArgs config.go:137 ext:spf13/pflag.StringSliceVarP
 ]
 
 /-- config.includePath[] -/
-def g57 : List Access := [
-  A 0 57 true false [] false [(1, .pre), (2, .pre), (3, .pre), (4, .pre)]  -- config.initArgs config.go:168 
+def g58 : List Access := [
+  A 0 58 true false [] false [(1, .pre), (2, .pre), (3, .pre), (4, .pre)]  -- config.initArgs config.go:168 
 ]
 
 /-- config.keepArtifacts -/
-def g58 : List Access := [
-  A 0 58 true false [] false [(1, .pre), (2, .pre), (3, .pre), (4, .pre)],  -- config.initArgs config.go:132 ext:spf13/pflag.BoolVarP
-  A 0 58 false false [] false [(1, .post), (2, .mid), (3, .mid), (4, .mid)]  -- config.run$4 run.go:201 
+def g59 : List Access := [
+  A 0 59 true false [] false [(1, .pre), (2, .pre), (3, .pre), (4, .pre)],  -- config.initArgs config.go:132 ext:spf13/pflag.BoolVarP
+  A 0 59 false false [] false [(1, .post), (2, .mid), (3, .mid), (4, .mid)]  -- config.run$4 run.go:201 
 ]
 
 /-- config.pVarNames -/
-def g59 : List Access := [
-  A 0 59 false false [] false [(1, .pre), (2, .pre), (3, .pre), (4, .pre)],  -- config.parseCfg parsecfg.go:61 
-  A 0 59 true false [] false [(1, .pre), (2, .pre), (3, .pre), (4, .pre)]  -- config.parseCfg parsecfg.go:61 
-]
-
-/-- config.pVarNames[] -/
 def g60 : List Access := [
+  A 0 60 false false [] false [(1, .pre), (2, .pre), (3, .pre), (4, .pre)],  -- config.parseCfg parsecfg.go:61 
   A 0 60 true false [] false [(1, .pre), (2, .pre), (3, .pre), (4, .pre)]  -- config.parseCfg parsecfg.go:61 
 ]
 
-/-- config.pVars[] -/
+/-- config.pVarNames[] -/
 def g61 : List Access := [
-  A 0 61 false false [] false [(1, .pre), (2, .pre), (3, .pre), (4, .pre)],  -- config.parseCfg parsecfg.go:59 
-  A 0 61 true false [] false [(1, .pre), (2, .pre), (3, .pre), (4, .pre)]  -- config.parseCfg parsecfg.go:60 
+  A 0 61 true false [] false [(1, .pre), (2, .pre), (3, .pre), (4, .pre)]  -- config.parseCfg parsecfg.go:61 
+]
+
+/-- config.pVars[] -/
+def g62 : List Access := [
+  A 0 62 false false [] false [(1, .pre), (2, .pre), (3, .pre), (4, .pre)],  -- config.parseCfg parsecfg.go:59 
+  A 0 62 true false [] false [(1, .pre), (2, .pre), (3, .pre), (4, .pre)]  -- config.parseCfg parsecfg.go:60 
 ]
 
 /-- config.parseOnly -/
-def g62 : List Access := [
-  A 0 62 false false [] false [(1, .pre), (2, .pre), (3, .pre), (4, .pre)],  -- Run run.go:127 
-  A 0 62 true false [] false [(1, .pre), (2, .pre), (3, .pre), (4, .pre)]  -- config.initArgs config.go:134 ext:spf13/pflag.BoolVarP
+def g63 : List Access := [
+  A 0 63 false false [] false [(1, .pre), (2, .pre), (3, .pre), (4, .pre)],  -- Run run.go:127 
+  A 0 63 true false [] false [(1, .pre), (2, .pre), (3, .pre), (4, .pre)]  -- config.initArgs config.go:134 ext:spf13/pflag.BoolVarP
 ]
 
 /-- config.play -/
-def g63 : List Access := [
-  A 0 63 false false [] false [(1, .post), (2, .mid), (3, .mid), (4, .mid)],  -- app.assemble result.go:196 
-  A 0 63 false false [] false [(1, .pre), (2, .pre), (3, .pre), (4, .mid)],  -- app.intro app.go:228 
-  A 0 63 true false [] false [(1, .pre), (2, .pre), (3, .pre), (4, .pre)],  -- config.compileV2 compile.go:30 
-  A 0 63 false false [] false [(1, .pre), (2, .pre), (3, .pre), (4, .pre)],  -- config.compileV2 compile.go:119 
-  A 0 63 false false [] false [(2, .mid), (3, .mid), (4, .mid)],  -- config.printSteps compile.go:133 
-  A 5 63 false false [] true []  -- prompter.prompt prompt.go:53 
-]
-
-/-- config.play[] -/
 def g64 : List Access := [
-  A 0 64 true false [] false [(1, .pre), (2, .pre), (3, .pre), (4, .pre)],  -- config.compileV2 compile.go:119 
-  A 0 64 false false [] false [(2, .mid), (3, .mid), (4, .mid)],  -- config.printSteps ? 
+  A 0 64 false false [] false [(1, .post), (2, .mid), (3, .mid), (4, .mid)],  -- app.assemble result.go:196 
+  A 0 64 false false [] false [(1, .pre), (2, .pre), (3, .pre), (4, .mid)],  -- app.intro app.go:229 
+  A 0 64 true false [] false [(1, .pre), (2, .pre), (3, .pre), (4, .pre)],  -- config.compileV2 compile.go:30 
+  A 0 64 false false [] false [(1, .pre), (2, .pre), (3, .pre), (4, .pre)],  -- config.compileV2 compile.go:119 
+  A 0 64 false false [] false [(2, .mid), (3, .mid), (4, .mid)],  -- config.printSteps compile.go:133 
   A 5 64 false false [] true []  -- prompter.prompt prompt.go:53 
 ]
 
-/-- config.quiet -/
+/-- config.play[] -/
 def g65 : List Access := [
-  A 15 65 false false [] true [],  -- app.witness app.go:166 
-  A 8 65 false false [] true [],  -- app.judge app.go:186 
-  A 7 65 false false [] true [],  -- app.narrate app.go:147 
-  A 0 65 false false [] false [(1, .pre), (2, .pre), (3, .pre), (4, .pre)],  -- Run run.go:39 
-  A 0 65 false false [] false [(1, .mid), (2, .mid), (3, .mid), (4, .mid)],  -- app.narrate app.go:147 
-  A 0 65 true false [] false [(1, .pre), (2, .pre), (3, .pre), (4, .pre)],  -- config.initArgs config.go:135 ext:spf13/pflag.BoolVarP
-  A 10 65 false false [] true [(13, .mid), (14, .mid)],  -- app.narrate app.go:147 
-  A 5 65 false false [] true [(10, .mid)],  -- app.narrate app.go:147 
-  A 11 65 false false [] true [(14, .mid), (15, .post), (16, .mid)],  -- app.narrate app.go:147 
-  A 11 65 false false [] true [(14, .mid), (15, .pre), (16, .pre)]  -- app.witness app.go:166 
+  A 0 65 true false [] false [(1, .pre), (2, .pre), (3, .pre), (4, .pre)],  -- config.compileV2 compile.go:119 
+  A 0 65 false false [] false [(2, .mid), (3, .mid), (4, .mid)],  -- config.printSteps ? 
+  A 5 65 false false [] true []  -- prompter.prompt prompt.go:53 
+]
+
+/-- config.quiet -/
+def g66 : List Access := [
+  A 15 66 false false [] true [],  -- app.witness app.go:166 
+  A 8 66 false false [] true [],  -- app.judge app.go:187 
+  A 7 66 false false [] true [],  -- app.narrate app.go:147 
+  A 0 66 false false [] false [(1, .pre), (2, .pre), (3, .pre), (4, .pre)],  -- Run run.go:39 
+  A 0 66 false false [] false [(1, .mid), (2, .mid), (3, .mid), (4, .mid)],  -- app.narrate app.go:147 
+  A 0 66 true false [] false [(1, .pre), (2, .pre), (3, .pre), (4, .pre)],  -- config.initArgs config.go:135 ext:spf13/pflag.BoolVarP
+  A 10 66 false false [] true [(13, .mid), (14, .mid)],  -- app.narrate app.go:147 
+  A 5 66 false false [] true [(10, .mid)],  -- app.narrate app.go:147 
+  A 11 66 false false [] true [(14, .mid), (15, .post), (16, .mid)],  -- app.narrate app.go:147 
+  A 11 66 false false [] true [(14, .mid), (15, .pre), (16, .pre)]  -- app.witness app.go:166 
 ]
 
 /-- config.removeAll -/
-def g66 : List Access := [
-  A 0 66 true false [] false [(1, .pre), (2, .pre), (3, .pre), (4, .pre)],  -- config.initArgs config.go:131 ext:spf13/pflag.BoolVar
-  A 0 66 false false [] false [(1, .post), (2, .mid), (3, .mid), (4, .mid)]  -- config.run$2 run.go:167 
+def g67 : List Access := [
+  A 0 67 true false [] false [(1, .pre), (2, .pre), (3, .pre), (4, .pre)],  -- config.initArgs config.go:131 ext:spf13/pflag.BoolVar
+  A 0 67 false false [] false [(1, .post), (2, .mid), (3, .mid), (4, .mid)]  -- config.run$2 run.go:167 
 ]
 
 /-- config.roleNames -/
-def g67 : List Access := [
-  A 0 67 false false [] false [(1, .pre), (2, .pre), (3, .pre), (4, .pre)],  -- config.parseRole parsecfg.go:586 
-  A 0 67 true false [] false [(1, .pre), (2, .pre), (3, .pre), (4, .pre)],  -- config.parseRole parsecfg.go:586 
-  A 0 67 false false [] false [(2, .mid), (3, .mid), (4, .mid)]  -- config.printCfg config.go:344 
+def g68 : List Access := [
+  A 0 68 false false [] false [(1, .pre), (2, .pre), (3, .pre), (4, .pre)],  -- config.parseRole parsecfg.go:586 
+  A 0 68 true false [] false [(1, .pre), (2, .pre), (3, .pre), (4, .pre)],  -- config.parseRole parsecfg.go:586 
+  A 0 68 false false [] false [(2, .mid), (3, .mid), (4, .mid)]  -- config.printCfg config.go:344 
 ]
 
 /-- config.roleNames[] -/
-def g68 : List Access := [
-  A 0 68 true false [] false [(1, .pre), (2, .pre), (3, .pre), (4, .pre)],  -- config.parseRole parsecfg.go:586 
-  A 0 68 false false [] false [(2, .mid), (3, .mid), (4, .mid)]  -- config.printCfg ? 
+def g69 : List Access := [
+  A 0 69 true false [] false [(1, .pre), (2, .pre), (3, .pre), (4, .pre)],  -- config.parseRole parsecfg.go:586 
+  A 0 69 false false [] false [(2, .mid), (3, .mid), (4, .mid)]  -- config.printCfg ? 
 ]
 
 /-- config.roles[] -/
-def g69 : List Access := [
-  A 0 69 false false [] false [(1, .pre), (2, .pre), (3, .pre), (4, .pre)],  -- config.parseRole parsecfg.go:563 
-  A 0 69 true false [] false [(1, .pre), (2, .pre), (3, .pre), (4, .pre)],  -- config.parseRole parsecfg.go:585 
-  A 0 69 false false [] false [(2, .mid), (3, .mid), (4, .mid)]  -- config.printCfg config.go:345 
+def g70 : List Access := [
+  A 0 70 false false [] false [(1, .pre), (2, .pre), (3, .pre), (4, .pre)],  -- config.parseRole parsecfg.go:563 
+  A 0 70 true false [] false [(1, .pre), (2, .pre), (3, .pre), (4, .pre)],  -- config.parseRole parsecfg.go:585 
+  A 0 70 false false [] false [(2, .mid), (3, .mid), (4, .mid)]  -- config.printCfg config.go:345 
 ]
 
 /-- config.seeAlso -/
-def g70 : List Access := [
-  A 0 70 false false [] false [(1, .post), (2, .mid), (3, .mid), (4, .mid)],  -- app.assemble result.go:139 
-  A 0 70 false false [] false [(1, .pre), (2, .pre), (3, .pre), (4, .mid)],  -- app.intro app.go:214 
-  A 0 70 false false [] false [(1, .pre), (2, .pre), (3, .pre), (4, .pre)],  -- config.parseCfg parsecfg.go:49 
-  A 0 70 true false [] false [(1, .pre), (2, .pre), (3, .pre), (4, .pre)],  -- config.parseCfg parsecfg.go:49 
-  A 0 70 false false [] false [(2, .mid), (3, .mid), (4, .mid)]  -- config.printCfg config.go:333 
+def g71 : List Access := [
+  A 0 71 false false [] false [(1, .post), (2, .mid), (3, .mid), (4, .mid)],  -- app.assemble result.go:139 
+  A 0 71 false false [] false [(1, .pre), (2, .pre), (3, .pre), (4, .mid)],  -- app.intro app.go:215 
+  A 0 71 false false [] false [(1, .pre), (2, .pre), (3, .pre), (4, .pre)],  -- config.parseCfg parsecfg.go:49 
+  A 0 71 true false [] false [(1, .pre), (2, .pre), (3, .pre), (4, .pre)],  -- config.parseCfg parsecfg.go:49 
+  A 0 71 false false [] false [(2, .mid), (3, .mid), (4, .mid)]  -- config.printCfg config.go:333 
 ]
 
 /-- config.seeAlso[] -/
-def g71 : List Access := [
-  A 0 71 false false [] false [(1, .pre), (2, .pre), (3, .pre), (4, .mid)],  -- app.intro ? 
-  A 0 71 true false [] false [(1, .pre), (2, .pre), (3, .pre), (4, .pre)],  -- config.parseCfg parsecfg.go:49 
-  A 0 71 false false [] false [(2, .mid), (3, .mid), (4, .mid)]  -- config.printCfg ? 
+def g72 : List Access := [
+  A 0 72 false false [] false [(1, .pre), (2, .pre), (3, .pre), (4, .mid)],  -- app.intro ? 
+  A 0 72 true false [] false [(1, .pre), (2, .pre), (3, .pre), (4, .pre)],  -- config.parseCfg parsecfg.go:49 
+  A 0 72 false false [] false [(2, .mid), (3, .mid), (4, .mid)]  -- config.printCfg ? 
 ]
 
 /-- config.skipPlot -/
-def g72 : List Access := [
-  A 0 72 true false [] false [(1, .pre), (2, .pre), (3, .pre), (4, .pre)],  -- config.initArgs config.go:139 ext:spf13/pflag.BoolVar
-  A 0 72 false false [] false [(1, .post), (2, .mid), (3, .mid), (4, .mid)]  -- config.run run.go:226 
+def g73 : List Access := [
+  A 0 73 true false [] false [(1, .pre), (2, .pre), (3, .pre), (4, .pre)],  -- config.initArgs config.go:139 ext:spf13/pflag.BoolVar
+  A 0 73 false false [] false [(1, .post), (2, .mid), (3, .mid), (4, .mid)]  -- config.run run.go:226 
 ]
 
 /-- config.subDir -/
-def g73 : List Access := [
-  A 0 73 true false [] false [(1, .pre), (2, .pre), (3, .pre), (4, .pre)],  -- config.initArgs config.go:173 
-  A 0 73 false false [] false [(1, .pre), (2, .pre), (3, .pre), (4, .pre)]  -- config.prepareDirs config.go:197 
+def g74 : List Access := [
+  A 0 74 true false [] false [(1, .pre), (2, .pre), (3, .pre), (4, .pre)],  -- config.initArgs config.go:173 
+  A 0 74 false false [] false [(1, .pre), (2, .pre), (3, .pre), (4, .pre)]  -- config.prepareDirs config.go:197 
 ]
 
 /-- config.titleStrings -/
-def g74 : List Access := [
-  A 0 74 false false [] false [(1, .post), (2, .mid), (3, .mid), (4, .mid)],  -- app.assemble result.go:137 
-  A 0 74 false false [] false [(1, .pre), (2, .pre), (3, .pre), (4, .mid)],  -- app.intro app.go:208 
-  A 0 74 false false [] false [(1, .pre), (2, .pre), (3, .pre), (4, .pre)],  -- config.parseCfg parsecfg.go:43 
-  A 0 74 true false [] false [(1, .pre), (2, .pre), (3, .pre), (4, .pre)],  -- config.parseCfg parsecfg.go:43 
-  A 0 74 false false [] false [(2, .mid), (3, .mid), (4, .mid)]  -- config.printCfg config.go:323 
+def g75 : List Access := [
+  A 0 75 false false [] false [(1, .post), (2, .mid), (3, .mid), (4, .mid)],  -- app.assemble result.go:137 
+  A 0 75 false false [] false [(1, .pre), (2, .pre), (3, .pre), (4, .mid)],  -- app.intro app.go:209 
+  A 0 75 false false [] false [(1, .pre), (2, .pre), (3, .pre), (4, .pre)],  -- config.parseCfg parsecfg.go:43 
+  A 0 75 true false [] false [(1, .pre), (2, .pre), (3, .pre), (4, .pre)],  -- config.parseCfg parsecfg.go:43 
+  A 0 75 false false [] false [(2, .mid), (3, .mid), (4, .mid)]  -- config.printCfg config.go:323 
 ]
 
 /-- config.titleStrings[] -/
-def g75 : List Access := [
-  A 0 75 true false [] false [(1, .pre), (2, .pre), (3, .pre), (4, .pre)],  -- config.parseCfg parsecfg.go:43 
-  A 0 75 false false [] false [(2, .mid), (3, .mid), (4, .mid)]  -- config.printCfg ? 
+def g76 : List Access := [
+  A 0 76 true false [] false [(1, .pre), (2, .pre), (3, .pre), (4, .pre)],  -- config.parseCfg parsecfg.go:43 
+  A 0 76 false false [] false [(2, .mid), (3, .mid), (4, .mid)]  -- config.printCfg ? 
 ]
 
 /-- config.uploadURL -/
-def g76 : List Access := [
-  A 0 76 false false [] false [(1, .post), (2, .mid), (3, .mid), (4, .mid)],  -- app.tryUpload upload.go:15 
-  A 0 76 true false [] false [(1, .pre), (2, .pre), (3, .pre), (4, .pre)]  -- config.initArgs config.go:130 ext:spf13/pflag.StringVar
+def g77 : List Access := [
+  A 0 77 false false [] false [(1, .post), (2, .mid), (3, .mid), (4, .mid)],  -- app.tryUpload upload.go:15 
+  A 0 77 true false [] false [(1, .pre), (2, .pre), (3, .pre), (4, .pre)]  -- config.initArgs config.go:130 ext:spf13/pflag.StringVar
 ]
 
 /-- config.varNames -/
-def g77 : List Access := [
-  A 0 77 false false [] false [(1, .pre), (2, .pre), (3, .pre), (4, .pre)],  -- config.maybeAddVar config.go:1050 
-  A 0 77 true false [] false [(1, .pre), (2, .pre), (3, .pre), (4, .pre)],  -- config.maybeAddVar config.go:1050 
-  A 0 77 false false [] false [(2, .mid), (3, .mid), (4, .mid)]  -- config.printCfg config.go:456 
+def g78 : List Access := [
+  A 0 78 false false [] false [(1, .pre), (2, .pre), (3, .pre), (4, .pre)],  -- config.maybeAddVar config.go:1050 
+  A 0 78 true false [] false [(1, .pre), (2, .pre), (3, .pre), (4, .pre)],  -- config.maybeAddVar config.go:1050 
+  A 0 78 false false [] false [(2, .mid), (3, .mid), (4, .mid)]  -- config.printCfg config.go:456 
 ]
 
 /-- config.varNames[] -/
-def g78 : List Access := [
-  A 0 78 true false [] false [(1, .pre), (2, .pre), (3, .pre), (4, .pre)]  -- config.maybeAddVar config.go:1050 
+def g79 : List Access := [
+  A 0 79 true false [] false [(1, .pre), (2, .pre), (3, .pre), (4, .pre)]  -- config.maybeAddVar config.go:1050 
 ]
 
 /-- config.vars[] -/
-def g79 : List Access := [
-  A 1 79 false false [] true [(5, .pre), (6, .pre), (7, .pre), (8, .pre)],  -- makeAuditionState audit.go:154 
-  A 8 79 false false [] true [],  -- audition.resetSigVars audit.go:171 
-  A 7 79 false false [] true [],  -- collector.collectObservation collector.go:297 
-  A 0 79 false false [] false [(1, .pre), (2, .pre), (3, .pre), (4, .pre)],  -- config.maybeAddVar config.go:1043 
-  A 0 79 true false [] false [(1, .pre), (2, .pre), (3, .pre), (4, .pre)],  -- config.maybeAddVar config.go:1049 
-  A 0 79 false false [] false [(2, .mid), (3, .mid), (4, .mid)]  -- config.printCfg config.go:457 
+def g80 : List Access := [
+  A 1 80 false false [] true [(5, .pre), (6, .pre), (7, .pre), (8, .pre)],  -- makeAuditionState audit.go:154 
+  A 8 80 false false [] true [],  -- audition.resetSigVars audit.go:171 
+  A 7 80 false false [] true [],  -- collector.collectObservation collector.go:297 
+  A 0 80 false false [] false [(1, .pre), (2, .pre), (3, .pre), (4, .pre)],  -- config.maybeAddVar config.go:1043 
+  A 0 80 true false [] false [(1, .pre), (2, .pre), (3, .pre), (4, .pre)],  -- config.maybeAddVar config.go:1049 
+  A 0 80 false false [] false [(2, .mid), (3, .mid), (4, .mid)]  -- config.printCfg config.go:457 
 ]
 
 /-- errorCollection.errs -/
-def g80 : List Access := [
-  A 12 80 false false [] true [],  -- actor.runActorCommandWithConsumer$1 commands.go:203 
-  A 12 80 true false [] true [],  -- actor.runActorCommandWithConsumer$1 commands.go:203 
-  A 15 80 false false [] true [],  -- actor.runActorCommandWithConsumer$1 commands.go:203 
-  A 15 80 true false [] true [],  -- actor.runActorCommandWithConsumer$1 commands.go:203 
-  A 1 80 false false [] true [(5, .mid), (6, .mid), (7, .mid), (8, .mid)],  -- combineErrors errors.go:49 
-  A 9 80 false false [] true [(12, .post), (13, .mid), (14, .mid)],  -- actor.runActorCommandWithConsumer commands.go:264 
-  A 8 80 false false [] true [],  -- combineErrors errors.go:49 
-  A 7 80 false false [] true [],  -- combineErrors errors.go:49 
-  A 0 80 false false [] false [(1, .mid), (2, .mid), (3, .mid), (4, .mid)],  -- combineErrors errors.go:49 
-  A 0 80 false false [] false [(1, .post), (2, .mid), (3, .mid), (4, .mid)],  -- isError errors.go:29 
-  A 10 80 false false [] true [(13, .mid), (14, .mid)],  -- actor.runActorCommandWithConsumer commands.go:264 
-  A 5 80 false false [] true [],  -- combineErrors errors.go:49 
-  A 11 80 false false [] true [(14, .mid), (15, .post), (16, .mid)],  -- actor.runActorCommandWithConsumer commands.go:264 
-  A 6 80 false false [] true []  -- combineErrors errors.go:49 
-]
-
-/-- errorCollection.errs[] -/
 def g81 : List Access := [
+  A 12 81 false false [] true [],  -- actor.runActorCommandWithConsumer$1 commands.go:203 
   A 12 81 true false [] true [],  -- actor.runActorCommandWithConsumer$1 commands.go:203 
+  A 15 81 false false [] true [],  -- actor.runActorCommandWithConsumer$1 commands.go:203 
   A 15 81 true false [] true [],  -- actor.runActorCommandWithConsumer$1 commands.go:203 
   A 1 81 false false [] true [(5, .mid), (6, .mid), (7, .mid), (8, .mid)],  -- combineErrors errors.go:49 
-  A 9 81 true false [] true [(12, .pre), (13, .pre), (14, .mid)],  -- actor.runActorCommandWithConsumer commands.go:117 
-  A 9 81 false false [] true [(12, .post), (13, .mid), (14, .mid)],  -- actor.runActorCommandWithConsumer commands.go:271 
+  A 9 81 false false [] true [(12, .post), (13, .mid), (14, .mid)],  -- actor.runActorCommandWithConsumer commands.go:264 
   A 8 81 false false [] true [],  -- combineErrors errors.go:49 
   A 7 81 false false [] true [],  -- combineErrors errors.go:49 
   A 0 81 false false [] false [(1, .mid), (2, .mid), (3, .mid), (4, .mid)],  -- combineErrors errors.go:49 
-  A 0 81 false false [] false [(1, .post), (2, .mid), (3, .mid), (4, .mid)],  -- isError ? 
-  A 10 81 true false [] true [(13, .mid), (14, .mid)],  -- actor.runActorCommandWithConsumer commands.go:117 
-  A 10 81 false false [] true [(13, .mid), (14, .mid)],  -- actor.runActorCommandWithConsumer commands.go:271 
+  A 0 81 false false [] false [(1, .post), (2, .mid), (3, .mid), (4, .mid)],  -- isError errors.go:29 
+  A 10 81 false false [] true [(13, .mid), (14, .mid)],  -- actor.runActorCommandWithConsumer commands.go:264 
   A 5 81 false false [] true [],  -- combineErrors errors.go:49 
-  A 11 81 true false [] true [(14, .mid), (15, .pre), (16, .pre)],  -- actor.runActorCommandWithConsumer commands.go:117 
-  A 11 81 false false [] true [(14, .mid), (15, .post), (16, .mid)],  -- actor.runActorCommandWithConsumer commands.go:271 
+  A 11 81 false false [] true [(14, .mid), (15, .post), (16, .mid)],  -- actor.runActorCommandWithConsumer commands.go:264 
   A 6 81 false false [] true []  -- combineErrors errors.go:49 
 ]
 
-/-- exec.Cmd.Dir -/
+/-- errorCollection.errs[] -/
 def g82 : List Access := [
-  A 9 82 true false [] true [(12, .pre), (13, .pre), (14, .pre)],  -- actor.makeShCmd commands.go:366 
-  A 9 82 false false [] true [(12, .pre), (13, .pre), (14, .pre)],  -- actor.runActorCommandWithConsumer commands.go:73 
-  A 0 82 true false [] false [(1, .post), (2, .mid), (3, .mid), (4, .mid)],  -- app.maybeRunGnuplot plot.go:340 
-  A 10 82 true false [] true [(13, .mid), (14, .mid)],  -- actor.makeShCmd commands.go:366 
-  A 10 82 false false [] true [(13, .mid), (14, .mid)],  -- actor.runActorCommandWithConsumer commands.go:73 
-  A 11 82 true false [] true [(14, .pre), (15, .pre), (16, .pre)],  -- actor.makeShCmd commands.go:366 
-  A 11 82 false false [] true [(14, .pre), (15, .pre), (16, .pre)]  -- actor.runActorCommandWithConsumer commands.go:73 
+  A 12 82 true false [] true [],  -- actor.runActorCommandWithConsumer$1 commands.go:203 
+  A 15 82 true false [] true [],  -- actor.runActorCommandWithConsumer$1 commands.go:203 
+  A 1 82 false false [] true [(5, .mid), (6, .mid), (7, .mid), (8, .mid)],  -- combineErrors errors.go:49 
+  A 9 82 true false [] true [(12, .pre), (13, .pre), (14, .mid)],  -- actor.runActorCommandWithConsumer commands.go:117 
+  A 9 82 false false [] true [(12, .post), (13, .mid), (14, .mid)],  -- actor.runActorCommandWithConsumer commands.go:271 
+  A 8 82 false false [] true [],  -- combineErrors errors.go:49 
+  A 7 82 false false [] true [],  -- combineErrors errors.go:49 
+  A 0 82 false false [] false [(1, .mid), (2, .mid), (3, .mid), (4, .mid)],  -- combineErrors errors.go:49 
+  A 0 82 false false [] false [(1, .post), (2, .mid), (3, .mid), (4, .mid)],  -- isError ? 
+  A 10 82 true false [] true [(13, .mid), (14, .mid)],  -- actor.runActorCommandWithConsumer commands.go:117 
+  A 10 82 false false [] true [(13, .mid), (14, .mid)],  -- actor.runActorCommandWithConsumer commands.go:271 
+  A 5 82 false false [] true [],  -- combineErrors errors.go:49 
+  A 11 82 true false [] true [(14, .mid), (15, .pre), (16, .pre)],  -- actor.runActorCommandWithConsumer commands.go:117 
+  A 11 82 false false [] true [(14, .mid), (15, .post), (16, .mid)],  -- actor.runActorCommandWithConsumer commands.go:271 
+  A 6 82 false false [] true []  -- combineErrors errors.go:49 
+]
+
+/-- exec.Cmd.Dir -/
+def g83 : List Access := [
+  A 9 83 true false [] true [(12, .pre), (13, .pre), (14, .pre)],  -- actor.makeShCmd commands.go:366 
+  A 9 83 false false [] true [(12, .pre), (13, .pre), (14, .pre)],  -- actor.runActorCommandWithConsumer commands.go:73 
+  A 0 83 true false [] false [(1, .post), (2, .mid), (3, .mid), (4, .mid)],  -- app.maybeRunGnuplot plot.go:340 
+  A 10 83 true false [] true [(13, .mid), (14, .mid)],  -- actor.makeShCmd commands.go:366 
+  A 10 83 false false [] true [(13, .mid), (14, .mid)],  -- actor.runActorCommandWithConsumer commands.go:73 
+  A 11 83 true false [] true [(14, .pre), (15, .pre), (16, .pre)],  -- actor.makeShCmd commands.go:366 
+  A 11 83 false false [] true [(14, .pre), (15, .pre), (16, .pre)]  -- actor.runActorCommandWithConsumer commands.go:73 
 ]
 
 /-- exec.Cmd.Stdin -/
-def g83 : List Access := [
-  A 9 83 true false [] true [(12, .pre), (13, .pre), (14, .pre)],  -- actor.makeShCmd commands.go:365 
-  A 10 83 true false [] true [(13, .mid), (14, .mid)],  -- actor.makeShCmd commands.go:365 
-  A 11 83 true false [] true [(14, .pre), (15, .pre), (16, .pre)]  -- actor.makeShCmd commands.go:365 
+def g84 : List Access := [
+  A 9 84 true false [] true [(12, .pre), (13, .pre), (14, .pre)],  -- actor.makeShCmd commands.go:365 
+  A 10 84 true false [] true [(13, .mid), (14, .mid)],  -- actor.makeShCmd commands.go:365 
+  A 11 84 true false [] true [(14, .pre), (15, .pre), (16, .pre)]  -- actor.makeShCmd commands.go:365 
 ]
 
 /-- exec.Cmd.Stdout -/
-def g84 : List Access := [
-  A 9 84 true false [] true [(12, .pre), (13, .pre), (14, .pre)],  -- actor.runActorCommandWithConsumer commands.go:79 
-  A 10 84 true false [] true [(13, .mid), (14, .mid)],  -- actor.runActorCommandWithConsumer commands.go:79 
-  A 11 84 true false [] true [(14, .pre), (15, .pre), (16, .pre)]  -- actor.runActorCommandWithConsumer commands.go:79 
+def g85 : List Access := [
+  A 9 85 true false [] true [(12, .pre), (13, .pre), (14, .pre)],  -- actor.runActorCommandWithConsumer commands.go:79 
+  A 10 85 true false [] true [(13, .mid), (14, .mid)],  -- actor.runActorCommandWithConsumer commands.go:79 
+  A 11 85 true false [] true [(14, .pre), (15, .pre), (16, .pre)]  -- actor.runActorCommandWithConsumer commands.go:79 
 ]
 
 /-- exec.Cmd.SysProcAttr -/
-def g85 : List Access := [
-  A 9 85 true false [] true [(12, .pre), (13, .pre), (14, .pre)],  -- actor.makeShCmd commands.go:363 
-  A 10 85 true false [] true [(13, .mid), (14, .mid)],  -- actor.makeShCmd commands.go:363 
-  A 11 85 true false [] true [(14, .pre), (15, .pre), (16, .pre)]  -- actor.makeShCmd commands.go:363 
+def g86 : List Access := [
+  A 9 86 true false [] true [(12, .pre), (13, .pre), (14, .pre)],  -- actor.makeShCmd commands.go:363 
+  A 10 86 true false [] true [(13, .mid), (14, .mid)],  -- actor.makeShCmd commands.go:363 
+  A 11 86 true false [] true [(14, .pre), (15, .pre), (16, .pre)]  -- actor.makeShCmd commands.go:363 
 ]
 
 /-- fsm.edges -/
-def g86 : List Access := [
-  A 8 86 false false [] true [],  -- fsmEval.advance pred_fsm.go:45 
-  A 0 86 true false [] false [(1, .pre), (2, .pre), (3, .pre), (4, .pre)]  -- init pred_fsm.go:72 
+def g87 : List Access := [
+  A 8 87 false false [] true [],  -- fsmEval.advance pred_fsm.go:45 
+  A 0 87 true false [] false [(1, .pre), (2, .pre), (3, .pre), (4, .pre)]  -- init pred_fsm.go:72 
 ]
 
 /-- fsm.labels -/
-def g87 : List Access := [
-  A 8 87 false false [] true [],  -- fsmEval.advance pred_fsm.go:43 
-  A 0 87 true false [] false [(1, .pre), (2, .pre), (3, .pre), (4, .pre)]  -- init pred_fsm.go:71 
+def g88 : List Access := [
+  A 8 88 false false [] true [],  -- fsmEval.advance pred_fsm.go:43 
+  A 0 88 true false [] false [(1, .pre), (2, .pre), (3, .pre), (4, .pre)]  -- init pred_fsm.go:71 
 ]
 
 /-- fsm.name -/
-def g88 : List Access := [
-  A 0 88 false false [] false [(1, .post), (2, .mid), (3, .mid), (4, .mid)],  -- app.subPlots plot.go:133 
-  A 0 88 false false [] false [(2, .mid), (3, .mid), (4, .mid)],  -- config.printCfg config.go:513 
-  A 0 88 true false [] false [(1, .pre), (2, .pre), (3, .pre), (4, .pre)],  -- init pred_fsm.go:68 
-  A 0 88 false false [] false [(1, .pre), (2, .pre), (3, .pre), (4, .pre)]  -- init$21 pred_fsm.go:62 
+def g89 : List Access := [
+  A 0 89 false false [] false [(1, .post), (2, .mid), (3, .mid), (4, .mid)],  -- app.subPlots plot.go:133 
+  A 0 89 false false [] false [(2, .mid), (3, .mid), (4, .mid)],  -- config.printCfg config.go:513 
+  A 0 89 true false [] false [(1, .pre), (2, .pre), (3, .pre), (4, .pre)],  -- init pred_fsm.go:68 
+  A 0 89 false false [] false [(1, .pre), (2, .pre), (3, .pre), (4, .pre)]  -- init$21 pred_fsm.go:62 
 ]
 
 /-- fsm.startState -/
-def g89 : List Access := [
-  A 8 89 false false [] true [],  -- makeFsmEval pred_fsm.go:31 
-  A 0 89 true false [] false [(1, .pre), (2, .pre), (3, .pre), (4, .pre)]  -- init pred_fsm.go:69 
+def g90 : List Access := [
+  A 8 90 false false [] true [],  -- makeFsmEval pred_fsm.go:31 
+  A 0 90 true false [] false [(1, .pre), (2, .pre), (3, .pre), (4, .pre)]  -- init pred_fsm.go:69 
 ]
 
 /-- fsm.stateNames -/
-def g90 : List Access := [
-  A 8 90 false false [] true [],  -- fsmEval.state pred_fsm.go:35 
-  A 0 90 true false [] false [(1, .pre), (2, .pre), (3, .pre), (4, .pre)]  -- init pred_fsm.go:70 
+def g91 : List Access := [
+  A 8 91 false false [] true [],  -- fsmEval.state pred_fsm.go:35 
+  A 0 91 true false [] false [(1, .pre), (2, .pre), (3, .pre), (4, .pre)]  -- init pred_fsm.go:70 
 ]
 
 /-- fsmEval.curState -/
-def g91 : List Access := [
-  A 8 91 true false [] true [],  -- audition.startOfAuditPeriod audit.go:480 
-  A 8 91 false false [] true []  -- fsmEval.advance pred_fsm.go:45 
+def g92 : List Access := [
+  A 8 92 true false [] true [],  -- audition.startOfAuditPeriod audit.go:480 
+  A 8 92 false false [] true []  -- fsmEval.advance pred_fsm.go:45 
 ]
 
 /-- fsmEval.fsm -/
-def g92 : List Access := [
-  A 8 92 true false [] true [],  -- audition.startOfAuditPeriod audit.go:480 
-  A 8 92 false false [] true []  -- fsmEval.advance pred_fsm.go:43 
+def g93 : List Access := [
+  A 8 93 true false [] true [],  -- audition.startOfAuditPeriod audit.go:480 
+  A 8 93 false false [] true []  -- fsmEval.advance pred_fsm.go:43 
 ]
 
 /-- fsmEval.labelMap -/
-def g93 : List Access := [
-  A 8 93 true false [] true [],  -- audition.startOfAuditPeriod audit.go:480 
-  A 8 93 false false [] true []  -- fsmEval.advance pred_fsm.go:39 
+def g94 : List Access := [
+  A 8 94 true false [] true [],  -- audition.startOfAuditPeriod audit.go:480 
+  A 8 94 false false [] true []  -- fsmEval.advance pred_fsm.go:39 
 ]
 
 /-- local actor.runActorCommand.outbuf -/
-def g94 : List Access := [
-  A 12 94 true false [] true [],  -- actor.runActorCommand$1 commands.go:48 ext:(*bytes.Buffer).WriteString
-  A 9 94 true false [] true [(12, .post), (13, .mid), (14, .mid)],  -- actor.runActorCommand commands.go:51 ext:(*bytes.Buffer).String
-  A 9 94 true false [] true [(12, .pre), (13, .pre), (14, .mid)],  -- actor.runActorCommand$1 commands.go:48 ext:(*bytes.Buffer).WriteString
-  A 10 94 true false [] true [(13, .mid), (14, .mid)]  -- actor.runActorCommand commands.go:51 ext:(*bytes.Buffer).String
+def g95 : List Access := [
+  A 12 95 true false [] true [],  -- actor.runActorCommand$1 commands.go:48 ext:(*bytes.Buffer).WriteString
+  A 9 95 true false [] true [(12, .post), (13, .mid), (14, .mid)],  -- actor.runActorCommand commands.go:51 ext:(*bytes.Buffer).String
+  A 9 95 true false [] true [(12, .pre), (13, .pre), (14, .mid)],  -- actor.runActorCommand$1 commands.go:48 ext:(*bytes.Buffer).WriteString
+  A 10 95 true false [] true [(13, .mid), (14, .mid)]  -- actor.runActorCommand commands.go:51 ext:(*bytes.Buffer).String
 ]
 
 /-- local actor.runActorCommandWithConsumer.stopRead -/
-def g95 : List Access := [
-  A 12 95 true false [] true [],  -- actor.runActorCommandWithConsumer$1 commands.go:175 
-  A 12 95 false false [] true [],  -- actor.runActorCommandWithConsumer$1 commands.go:176 
-  A 15 95 true false [] true [],  -- actor.runActorCommandWithConsumer$1 commands.go:175 
-  A 15 95 false false [] true []  -- actor.runActorCommandWithConsumer$1 commands.go:176 
+def g96 : List Access := [
+  A 12 96 true false [] true [],  -- actor.runActorCommandWithConsumer$1 commands.go:175 
+  A 12 96 false false [] true [],  -- actor.runActorCommandWithConsumer$1 commands.go:176 
+  A 15 96 true false [] true [],  -- actor.runActorCommandWithConsumer$1 commands.go:175 
+  A 15 96 false false [] true []  -- actor.runActorCommandWithConsumer$1 commands.go:176 
 ]
 
 /-- local config.parseRole.parserNames[] -/
-def g96 : List Access := [
-  A 0 96 true false [] false [(1, .pre), (2, .pre), (3, .pre), (4, .pre)],  -- config.parseRole parsecfg.go:583 
-  A 0 96 false false [] false [(1, .pre), (2, .pre), (3, .pre), (4, .pre)]  -- config.parseRole$1 parsecfg.go:624 
+def g97 : List Access := [
+  A 0 97 true false [] false [(1, .pre), (2, .pre), (3, .pre), (4, .pre)],  -- config.parseRole parsecfg.go:583 
+  A 0 97 false false [] false [(1, .pre), (2, .pre), (3, .pre), (4, .pre)]  -- config.parseRole$1 parsecfg.go:624 
 ]
 
 /-- local config.preprocReplace.err -/
-def g97 : List Access := [
-  A 0 97 false false [] false [(1, .pre), (2, .pre), (3, .pre), (4, .pre)],  -- config.preprocReplace parsecfg.go:1153 
-  A 0 97 true false [] false [(1, .pre), (2, .pre), (3, .pre), (4, .pre)]  -- config.preprocReplace$1 parsecfg.go:1149 
+def g98 : List Access := [
+  A 0 98 false false [] false [(1, .pre), (2, .pre), (3, .pre), (4, .pre)],  -- config.preprocReplace parsecfg.go:1153 
+  A 0 98 true false [] false [(1, .pre), (2, .pre), (3, .pre), (4, .pre)]  -- config.preprocReplace$1 parsecfg.go:1149 
 ]
 
 /-- map[string]bool[] -/
-def g98 : List Access := [
-  A 0 98 true false [] false [(2, .mid), (3, .mid), (4, .mid)],  -- config.printCfg config.go:509 
-  A 0 98 false false [] false [(2, .mid), (3, .mid), (4, .mid)]  -- config.printCfg$3 config.go:538 
+def g99 : List Access := [
+  A 0 99 true false [] false [(2, .mid), (3, .mid), (4, .mid)],  -- config.printCfg config.go:509 
+  A 0 99 false false [] false [(2, .mid), (3, .mid), (4, .mid)]  -- config.printCfg$3 config.go:538 
 ]
 
 /-- observer.hasData -/
-def g99 : List Access := [
-  A 7 99 true false [] true [],  -- collector.collectAuditionReport collector.go:344 
-  A 0 99 false false [] false [(1, .post), (2, .mid), (3, .mid), (4, .mid)]  -- app.subPlots plot.go:116 
+def g100 : List Access := [
+  A 7 100 true false [] true [],  -- collector.collectAuditionReport collector.go:349 
+  A 0 100 false false [] false [(1, .post), (2, .mid), (3, .mid), (4, .mid)]  -- app.subPlots plot.go:116 
 ]
 
 /-- outputFiles.files[] -/
-def g100 : List Access := [
-  A 7 100 false false [] true [],  -- outputFiles.CloseAll output_files.go:23 
-  A 7 100 true false [] true []  -- outputFiles.getWriter output_files.go:42 
+def g101 : List Access := [
+  A 7 101 false false [] true [],  -- outputFiles.CloseAll output_files.go:23 
+  A 7 101 true false [] true []  -- outputFiles.getWriter output_files.go:42 
 ]
 
 /-- outputFiles.writers[] -/
-def g101 : List Access := [
-  A 7 101 false false [] true [],  -- outputFiles.CloseAll output_files.go:24 
-  A 7 101 true false [] true []  -- outputFiles.getWriter output_files.go:44 
+def g102 : List Access := [
+  A 7 102 false false [] true [],  -- outputFiles.CloseAll output_files.go:24 
+  A 7 102 true false [] true []  -- outputFiles.getWriter output_files.go:44 
 ]
 
 /-- parser.curLine -/
-def g102 : List Access := [
-  A 0 102 false false [] false [(1, .pre), (2, .pre), (3, .pre), (4, .pre)],  -- parser.get parsecfg.go:1109 
-  A 0 102 true false [] false [(1, .pre), (2, .pre), (3, .pre), (4, .pre)]  -- parser.m parsecfg.go:1104 
+def g103 : List Access := [
+  A 0 103 false false [] false [(1, .pre), (2, .pre), (3, .pre), (4, .pre)],  -- parser.get parsecfg.go:1109 
+  A 0 103 true false [] false [(1, .pre), (2, .pre), (3, .pre), (4, .pre)]  -- parser.m parsecfg.go:1104 
 ]
 
 /-- pflag.Flag.NoOptDefVal -/
-def g103 : List Access := [
-  A 0 103 true false [] false [(1, .pre), (2, .pre), (3, .pre), (4, .pre)]  -- config.initArgs config.go:150 
+def g104 : List Access := [
+  A 0 104 true false [] false [(1, .pre), (2, .pre), (3, .pre), (4, .pre)]  -- config.initArgs config.go:150 
 ]
 
 /-- plotgroup.plots[] -/
-def g104 : List Access := [
-  A 0 104 true false [] false [(1, .post), (2, .mid), (3, .mid), (4, .mid)]  -- app.subPlots plot.go:165 
+def g105 : List Access := [
+  A 0 105 true false [] false [(1, .post), (2, .mid), (3, .mid), (4, .mid)]  -- app.subPlots plot.go:165 
 ]
 
 /-- reader.diffs[] -/
-def g105 : List Access := [
-  A 0 105 true false [] false [(1, .pre), (2, .pre), (3, .pre), (4, .pre)]  -- newReader reader.go:53 
+def g106 : List Access := [
+  A 0 106 true false [] false [(1, .pre), (2, .pre), (3, .pre), (4, .pre)]  -- newReader reader.go:53 
 ]
 
 /-- reader.readers -/
-def g106 : List Access := [
-  A 0 106 false false [] false [(1, .pre), (2, .pre), (3, .pre), (4, .pre)],  -- reader.close reader.go:120 
-  A 0 106 true false [] false [(1, .pre), (2, .pre), (3, .pre), (4, .pre)]  -- subreader.readLine reader.go:223 
+def g107 : List Access := [
+  A 0 107 false false [] false [(1, .pre), (2, .pre), (3, .pre), (4, .pre)],  -- reader.close reader.go:120 
+  A 0 107 true false [] false [(1, .pre), (2, .pre), (3, .pre), (4, .pre)]  -- subreader.readLine reader.go:223 
 ]
 
 /-- reader.readers[] -/
-def g107 : List Access := [
-  A 0 107 false false [] false [(1, .pre), (2, .pre), (3, .pre), (4, .pre)],  -- reader.close reader.go:121 
-  A 0 107 true false [] false [(1, .pre), (2, .pre), (3, .pre), (4, .pre)]  -- subreader.readLine reader.go:259 
+def g108 : List Access := [
+  A 0 108 false false [] false [(1, .pre), (2, .pre), (3, .pre), (4, .pre)],  -- reader.close reader.go:121 
+  A 0 108 true false [] false [(1, .pre), (2, .pre), (3, .pre), (4, .pre)]  -- subreader.readLine reader.go:259 
 ]
 
 /-- role.actionCmds[] -/
-def g108 : List Access := [
-  A 0 108 false false [] false [(1, .pre), (2, .pre), (3, .pre), (4, .pre)],  -- actor.prepareActionCommands commands.go:281 
-  A 0 108 true false [] false [(1, .pre), (2, .pre), (3, .pre), (4, .pre)],  -- config.parseRole$1 parsecfg.go:600 
-  A 0 108 false false [] false [(2, .mid), (3, .mid), (4, .mid)]  -- config.printCfg config.go:357 
+def g109 : List Access := [
+  A 0 109 false false [] false [(1, .pre), (2, .pre), (3, .pre), (4, .pre)],  -- actor.prepareActionCommands commands.go:281 
+  A 0 109 true false [] false [(1, .pre), (2, .pre), (3, .pre), (4, .pre)],  -- config.parseRole$1 parsecfg.go:600 
+  A 0 109 false false [] false [(2, .mid), (3, .mid), (4, .mid)]  -- config.printCfg config.go:357 
 ]
 
 /-- role.actionNames -/
-def g109 : List Access := [
-  A 0 109 false false [] false [(1, .pre), (2, .pre), (3, .pre), (4, .pre)],  -- config.parseRole$1 parsecfg.go:598 
-  A 0 109 true false [] false [(1, .pre), (2, .pre), (3, .pre), (4, .pre)],  -- config.parseRole$1 parsecfg.go:598 
-  A 0 109 false false [] false [(2, .mid), (3, .mid), (4, .mid)]  -- config.printCfg config.go:356 
+def g110 : List Access := [
+  A 0 110 false false [] false [(1, .pre), (2, .pre), (3, .pre), (4, .pre)],  -- config.parseRole$1 parsecfg.go:598 
+  A 0 110 true false [] false [(1, .pre), (2, .pre), (3, .pre), (4, .pre)],  -- config.parseRole$1 parsecfg.go:598 
+  A 0 110 false false [] false [(2, .mid), (3, .mid), (4, .mid)]  -- config.printCfg config.go:356 
 ]
 
 /-- role.actionNames[] -/
-def g110 : List Access := [
-  A 0 110 true false [] false [(1, .pre), (2, .pre), (3, .pre), (4, .pre)],  -- config.parseRole$1 parsecfg.go:598 
-  A 0 110 false false [] false [(2, .mid), (3, .mid), (4, .mid)],  -- config.printCfg ? 
-  A 0 110 false false [] false [(1, .pre), (2, .pre), (3, .pre), (4, .pre)]  -- role.clone config.go:619 
+def g111 : List Access := [
+  A 0 111 true false [] false [(1, .pre), (2, .pre), (3, .pre), (4, .pre)],  -- config.parseRole$1 parsecfg.go:598 
+  A 0 111 false false [] false [(2, .mid), (3, .mid), (4, .mid)],  -- config.printCfg ? 
+  A 0 111 false false [] false [(1, .pre), (2, .pre), (3, .pre), (4, .pre)]  -- role.clone config.go:619 
 ]
 
 /-- role.cleanupCmd -/
-def g111 : List Access := [
-  A 0 111 false false [] false [(1, .pre), (2, .pre), (3, .pre), (4, .pre)],  -- actor.prepareActionCommands commands.go:295 
-  A 0 111 true false [] false [(1, .pre), (2, .pre), (3, .pre), (4, .pre)],  -- config.parseRole$1 parsecfg.go:604 
-  A 0 111 false false [] false [(2, .mid), (3, .mid), (4, .mid)]  -- config.printCfg config.go:347 
+def g112 : List Access := [
+  A 0 112 false false [] false [(1, .pre), (2, .pre), (3, .pre), (4, .pre)],  -- actor.prepareActionCommands commands.go:295 
+  A 0 112 true false [] false [(1, .pre), (2, .pre), (3, .pre), (4, .pre)],  -- config.parseRole$1 parsecfg.go:604 
+  A 0 112 false false [] false [(2, .mid), (3, .mid), (4, .mid)]  -- config.printCfg config.go:347 
 ]
 
 /-- role.sigNames -/
-def g112 : List Access := [
-  A 0 112 false false [] false [(1, .pre), (2, .pre), (3, .pre), (4, .pre)],  -- config.parseRole parsecfg.go:582 
-  A 0 112 true false [] false [(1, .pre), (2, .pre), (3, .pre), (4, .pre)]  -- config.parseRole$1 parsecfg.go:672 
-]
-
-/-- role.sigNames[] -/
 def g113 : List Access := [
-  A 0 113 false false [] false [(1, .pre), (2, .pre), (3, .pre), (4, .pre)],  -- config.parseRole ? 
+  A 0 113 false false [] false [(1, .pre), (2, .pre), (3, .pre), (4, .pre)],  -- config.parseRole parsecfg.go:582 
   A 0 113 true false [] false [(1, .pre), (2, .pre), (3, .pre), (4, .pre)]  -- config.parseRole$1 parsecfg.go:672 
 ]
 
-/-- role.sigParsers -/
+/-- role.sigNames[] -/
 def g114 : List Access := [
-  A 15 114 false false [] true [],  -- spotMgr.detectSignals spotlight.go:184 
-  A 0 114 false false [] false [(1, .pre), (2, .pre), (3, .pre), (4, .pre)],  -- config.parseRole$1 parsecfg.go:671 
-  A 0 114 true false [] false [(1, .pre), (2, .pre), (3, .pre), (4, .pre)],  -- config.parseRole$1 parsecfg.go:671 
-  A 0 114 false false [] false [(2, .mid), (3, .mid), (4, .mid)],  -- config.printCfg config.go:353 
-  A 11 114 false false [] true [(14, .mid), (15, .pre), (16, .pre)]  -- spotMgr.detectSignals spotlight.go:184 
+  A 0 114 false false [] false [(1, .pre), (2, .pre), (3, .pre), (4, .pre)],  -- config.parseRole ? 
+  A 0 114 true false [] false [(1, .pre), (2, .pre), (3, .pre), (4, .pre)]  -- config.parseRole$1 parsecfg.go:672 
+]
+
+/-- role.sigParsers -/
+def g115 : List Access := [
+  A 15 115 false false [] true [],  -- spotMgr.detectSignals spotlight.go:184 
+  A 0 115 false false [] false [(1, .pre), (2, .pre), (3, .pre), (4, .pre)],  -- config.parseRole$1 parsecfg.go:671 
+  A 0 115 true false [] false [(1, .pre), (2, .pre), (3, .pre), (4, .pre)],  -- config.parseRole$1 parsecfg.go:671 
+  A 0 115 false false [] false [(2, .mid), (3, .mid), (4, .mid)],  -- config.printCfg config.go:353 
+  A 11 115 false false [] true [(14, .mid), (15, .pre), (16, .pre)]  -- spotMgr.detectSignals spotlight.go:184 
 ]
 
 /-- role.sigParsers[] -/
-def g115 : List Access := [
-  A 15 115 false false [] true [],  -- spotMgr.detectSignals ? 
-  A 0 115 true false [] false [(1, .pre), (2, .pre), (3, .pre), (4, .pre)],  -- config.parseRole$1 parsecfg.go:671 
-  A 0 115 false false [] false [(2, .mid), (3, .mid), (4, .mid)],  -- config.printCfg ? 
-  A 0 115 false false [] false [(1, .pre), (2, .pre), (3, .pre), (4, .pre)],  -- role.clone config.go:620 
-  A 11 115 false false [] true [(14, .mid), (15, .pre), (16, .pre)]  -- spotMgr.detectSignals ? 
+def g116 : List Access := [
+  A 15 116 false false [] true [],  -- spotMgr.detectSignals ? 
+  A 0 116 true false [] false [(1, .pre), (2, .pre), (3, .pre), (4, .pre)],  -- config.parseRole$1 parsecfg.go:671 
+  A 0 116 false false [] false [(2, .mid), (3, .mid), (4, .mid)],  -- config.printCfg ? 
+  A 0 116 false false [] false [(1, .pre), (2, .pre), (3, .pre), (4, .pre)],  -- role.clone config.go:620 
+  A 11 116 false false [] true [(14, .mid), (15, .pre), (16, .pre)]  -- spotMgr.detectSignals ? 
 ]
 
 /-- role.spotlightCmd -/
-def g116 : List Access := [
-  A 0 116 false false [] false [(1, .pre), (2, .pre), (3, .pre), (4, .pre)],  -- actor.prepareActionCommands commands.go:288 
-  A 0 116 true false [] false [(1, .pre), (2, .pre), (3, .pre), (4, .pre)],  -- config.parseRole$1 parsecfg.go:602 
-  A 0 116 false false [] false [(2, .mid), (3, .mid), (4, .mid)],  -- config.printCfg config.go:350 
-  A 6 116 false false [] true [(11, .mid)]  -- spotMgr.manageSpotlights spotlight.go:65 
+def g117 : List Access := [
+  A 0 117 false false [] false [(1, .pre), (2, .pre), (3, .pre), (4, .pre)],  -- actor.prepareActionCommands commands.go:288 
+  A 0 117 true false [] false [(1, .pre), (2, .pre), (3, .pre), (4, .pre)],  -- config.parseRole$1 parsecfg.go:602 
+  A 0 117 false false [] false [(2, .mid), (3, .mid), (4, .mid)],  -- config.printCfg config.go:350 
+  A 6 117 false false [] true [(11, .mid)]  -- spotMgr.manageSpotlights spotlight.go:65 
 ]
 
 /-- scene.concurrentLines -/
-def g117 : List Access := [
-  A 0 117 false false [] false [(1, .pre), (2, .pre), (3, .pre), (4, .pre)],  -- config.compileV2 compile.go:60 
-  A 0 117 true false [] false [(1, .pre), (2, .pre), (3, .pre), (4, .pre)],  -- config.compileV2 compile.go:60 
-  A 0 117 false false [] false [(2, .mid), (3, .mid), (4, .mid)],  -- config.printSteps ? 
-  A 5 117 false false [] true []  -- prompter.prompt ? 
+def g118 : List Access := [
+  A 0 118 false false [] false [(1, .pre), (2, .pre), (3, .pre), (4, .pre)],  -- config.compileV2 compile.go:60 
+  A 0 118 true false [] false [(1, .pre), (2, .pre), (3, .pre), (4, .pre)],  -- config.compileV2 compile.go:60 
+  A 0 118 false false [] false [(2, .mid), (3, .mid), (4, .mid)],  -- config.printSteps ? 
+  A 5 118 false false [] true []  -- prompter.prompt ? 
 ]
 
 /-- scene.concurrentLines[] -/
-def g118 : List Access := [
-  A 0 118 true false [] false [(1, .pre), (2, .pre), (3, .pre), (4, .pre)]  -- config.compileV2 compile.go:60 
+def g119 : List Access := [
+  A 0 119 true false [] false [(1, .pre), (2, .pre), (3, .pre), (4, .pre)]  -- config.compileV2 compile.go:60 
 ]
 
 /-- scene.waitUntil -/
-def g119 : List Access := [
-  A 0 119 true false [] false [(1, .pre), (2, .pre), (3, .pre), (4, .pre)],  -- config.compileV2 compile.go:97 
-  A 0 119 false false [] false [(1, .pre), (2, .pre), (3, .pre), (4, .pre)],  -- config.compileV2 compile.go:106 
-  A 0 119 false false [] false [(2, .mid), (3, .mid), (4, .mid)],  -- config.printSteps ? 
-  A 5 119 false false [] true []  -- prompter.prompt ? 
+def g120 : List Access := [
+  A 0 120 true false [] false [(1, .pre), (2, .pre), (3, .pre), (4, .pre)],  -- config.compileV2 compile.go:97 
+  A 0 120 false false [] false [(1, .pre), (2, .pre), (3, .pre), (4, .pre)],  -- config.compileV2 compile.go:106 
+  A 0 120 false false [] false [(2, .mid), (3, .mid), (4, .mid)],  -- config.printSteps ? 
+  A 5 120 false false [] true []  -- prompter.prompt ? 
 ]
 
 /-- scriptLine.steps -/
-def g120 : List Access := [
-  A 0 120 false false [] false [(1, .pre), (2, .pre), (3, .pre), (4, .pre)],  -- config.compileV2 compile.go:72 
-  A 0 120 true false [] false [(1, .pre), (2, .pre), (3, .pre), (4, .pre)],  -- config.compileV2 compile.go:69 
-  A 0 120 false false [] false [(2, .mid), (3, .mid), (4, .mid)],  -- config.printSteps ? 
-  A 5 120 false false [] true [(10, .mid)]  -- prompter.runScene ? 
+def g121 : List Access := [
+  A 0 121 false false [] false [(1, .pre), (2, .pre), (3, .pre), (4, .pre)],  -- config.compileV2 compile.go:72 
+  A 0 121 true false [] false [(1, .pre), (2, .pre), (3, .pre), (4, .pre)],  -- config.compileV2 compile.go:69 
+  A 0 121 false false [] false [(2, .mid), (3, .mid), (4, .mid)],  -- config.printSteps ? 
+  A 5 121 false false [] true [(10, .mid)]  -- prompter.runScene ? 
 ]
 
 /-- scriptLine.steps[] -/
-def g121 : List Access := [
-  A 0 121 true false [] false [(1, .pre), (2, .pre), (3, .pre), (4, .pre)]  -- config.compileV2 compile.go:69 
+def g122 : List Access := [
+  A 0 122 true false [] false [(1, .pre), (2, .pre), (3, .pre), (4, .pre)]  -- config.compileV2 compile.go:69 
 ]
 
 /-- sigEvent.values -/
-def g122 : List Access := [
-  A 15 122 false false [] true [],  -- spotMgr.detectSignals spotlight.go:261 
-  A 15 122 true false [] true [],  -- spotMgr.detectSignals spotlight.go:261 
-  A 8 122 false false [] true [],  -- audition.audit audit.go:230 
-  A 11 122 false false [] true [(14, .mid), (15, .pre), (16, .pre)],  -- spotMgr.detectSignals spotlight.go:261 
-  A 11 122 true false [] true [(14, .mid), (15, .pre), (16, .pre)]  -- spotMgr.detectSignals spotlight.go:261 
-]
-
-/-- sigEvent.values[] -/
 def g123 : List Access := [
+  A 15 123 false false [] true [],  -- spotMgr.detectSignals spotlight.go:261 
   A 15 123 true false [] true [],  -- spotMgr.detectSignals spotlight.go:261 
+  A 8 123 false false [] true [],  -- audition.audit audit.go:230 
+  A 11 123 false false [] true [(14, .mid), (15, .pre), (16, .pre)],  -- spotMgr.detectSignals spotlight.go:261 
   A 11 123 true false [] true [(14, .mid), (15, .pre), (16, .pre)]  -- spotMgr.detectSignals spotlight.go:261 
 ]
 
-/-- sink.lastVal -/
+/-- sigEvent.values[] -/
 def g124 : List Access := [
-  A 15 124 false false [] true [],  -- spotMgr.detectSignals spotlight.go:256 
-  A 15 124 true false [] true [],  -- spotMgr.detectSignals spotlight.go:257 
-  A 11 124 false false [] true [(14, .mid), (15, .pre), (16, .pre)],  -- spotMgr.detectSignals spotlight.go:256 
-  A 11 124 true false [] true [(14, .mid), (15, .pre), (16, .pre)]  -- spotMgr.detectSignals spotlight.go:257 
+  A 15 124 true false [] true [],  -- spotMgr.detectSignals spotlight.go:261 
+  A 11 124 true false [] true [(14, .mid), (15, .pre), (16, .pre)]  -- spotMgr.detectSignals spotlight.go:261 
+]
+
+/-- sink.lastVal -/
+def g125 : List Access := [
+  A 15 125 false false [] true [],  -- spotMgr.detectSignals spotlight.go:256 
+  A 15 125 true false [] true [],  -- spotMgr.detectSignals spotlight.go:257 
+  A 11 125 false false [] true [(14, .mid), (15, .pre), (16, .pre)],  -- spotMgr.detectSignals spotlight.go:256 
+  A 11 125 true false [] true [(14, .mid), (15, .pre), (16, .pre)]  -- spotMgr.detectSignals spotlight.go:257 
 ]
 
 /-- subreader.lineno -/
-def g125 : List Access := [
-  A 0 125 false false [] false [(1, .pre), (2, .pre), (3, .pre), (4, .pre)],  -- pos.wrapErr reader.go:175 
-  A 0 125 true false [] false [(1, .pre), (2, .pre), (3, .pre), (4, .pre)]  -- subreader.readLine reader.go:205 
+def g126 : List Access := [
+  A 0 126 false false [] false [(1, .pre), (2, .pre), (3, .pre), (4, .pre)],  -- pos.wrapErr reader.go:175 
+  A 0 126 true false [] false [(1, .pre), (2, .pre), (3, .pre), (4, .pre)]  -- subreader.readLine reader.go:205 
 ]
 
 /-- subreader.lines -/
-def g126 : List Access := [
-  A 0 126 false false [] false [(1, .pre), (2, .pre), (3, .pre), (4, .pre)],  -- pos.wrapErr reader.go:150 
-  A 0 126 true false [] false [(1, .pre), (2, .pre), (3, .pre), (4, .pre)]  -- subreader.readLine reader.go:201 
-]
-
-/-- subreader.lines[] -/
 def g127 : List Access := [
-  A 0 127 false false [] false [(1, .pre), (2, .pre), (3, .pre), (4, .pre)],  -- pos.wrapErr reader.go:154 
+  A 0 127 false false [] false [(1, .pre), (2, .pre), (3, .pre), (4, .pre)],  -- pos.wrapErr reader.go:150 
   A 0 127 true false [] false [(1, .pre), (2, .pre), (3, .pre), (4, .pre)]  -- subreader.readLine reader.go:201 
 ]
 
-/-- subreader.parent -/
+/-- subreader.lines[] -/
 def g128 : List Access := [
-  A 0 128 false false [] false [(1, .pre), (2, .pre), (3, .pre), (4, .pre)],  -- pos.wrapErr reader.go:170 
-  A 0 128 true false [] false [(1, .pre), (2, .pre), (3, .pre), (4, .pre)]  -- subreader.readLine reader.go:258 
+  A 0 128 false false [] false [(1, .pre), (2, .pre), (3, .pre), (4, .pre)],  -- pos.wrapErr reader.go:154 
+  A 0 128 true false [] false [(1, .pre), (2, .pre), (3, .pre), (4, .pre)]  -- subreader.readLine reader.go:201 
+]
+
+/-- subreader.parent -/
+def g129 : List Access := [
+  A 0 129 false false [] false [(1, .pre), (2, .pre), (3, .pre), (4, .pre)],  -- pos.wrapErr reader.go:170 
+  A 0 129 true false [] false [(1, .pre), (2, .pre), (3, .pre), (4, .pre)]  -- subreader.readLine reader.go:258 
 ]
 
 /-- timeutil.Timer.Read -/
-def g129 : List Access := [
-  A 7 129 true false [] true []  -- collector.collect collector.go:177 
+def g130 : List Access := [
+  A 7 130 true false [] true []  -- collector.collect collector.go:177 
 ]
 
 /-- var actionDefRe -/
-def g130 : List Access := [
-  A 0 130 false false [] false [(1, .pre), (2, .pre), (3, .pre), (4, .pre)],  -- config.parseRole$1 parsecfg.go:589 
-  A 0 130 true false [] false [(1, .pre), (2, .pre), (3, .pre), (4, .pre)]  -- init parsecfg.go:555 
+def g131 : List Access := [
+  A 0 131 false false [] false [(1, .pre), (2, .pre), (3, .pre), (4, .pre)],  -- config.parseRole$1 parsecfg.go:589 
+  A 0 131 true false [] false [(1, .pre), (2, .pre), (3, .pre), (4, .pre)]  -- init parsecfg.go:555 
 ]
 
 /-- var activeRe -/
-def g131 : List Access := [
-  A 0 131 true false [] false [(1, .pre), (2, .pre), (3, .pre), (4, .pre)]  -- init parsecfg.go:236 
+def g132 : List Access := [
+  A 0 132 true false [] false [(1, .pre), (2, .pre), (3, .pre), (4, .pre)]  -- init parsecfg.go:236 
 ]
 
 /-- var actorDefRe -/
-def g132 : List Access := [
-  A 0 132 true false [] false [(1, .pre), (2, .pre), (3, .pre), (4, .pre)]  -- init parsecfg.go:713 
+def g133 : List Access := [
+  A 0 133 true false [] false [(1, .pre), (2, .pre), (3, .pre), (4, .pre)]  -- init parsecfg.go:713 
 ]
 
 /-- var actorsRe -/
-def g133 : List Access := [
-  A 0 133 false false [] false [(1, .pre), (2, .pre), (3, .pre), (4, .pre)],  -- config.parseCfg parsecfg.go:25 
-  A 0 133 true false [] false [(1, .pre), (2, .pre), (3, .pre), (4, .pre)]  -- init parsecfg.go:712 
+def g134 : List Access := [
+  A 0 134 false false [] false [(1, .pre), (2, .pre), (3, .pre), (4, .pre)],  -- config.parseCfg parsecfg.go:25 
+  A 0 134 true false [] false [(1, .pre), (2, .pre), (3, .pre), (4, .pre)]  -- init parsecfg.go:712 
 ]
 
 /-- var adjList -/
-def g134 : List Access := [
-  A 0 134 false false [] false [(1, .post), (2, .mid), (3, .mid), (4, .mid)],  -- GenName namegen.go:12 
-  A 0 134 true false [] false [(1, .pre), (2, .pre), (3, .pre), (4, .pre)]  -- init words.go:1120 
+def g135 : List Access := [
+  A 0 135 false false [] false [(1, .post), (2, .mid), (3, .mid), (4, .mid)],  -- GenName namegen.go:12 
+  A 0 135 true false [] false [(1, .pre), (2, .pre), (3, .pre), (4, .pre)]  -- init words.go:1120 
 ]
 
 /-- var advList -/
-def g135 : List Access := [
-  A 0 135 false false [] false [(1, .post), (2, .mid), (3, .mid), (4, .mid)],  -- GenName namegen.go:13 
-  A 0 135 true false [] false [(1, .pre), (2, .pre), (3, .pre), (4, .pre)]  -- init words.go:3 
+def g136 : List Access := [
+  A 0 136 false false [] false [(1, .post), (2, .mid), (3, .mid), (4, .mid)],  -- GenName namegen.go:13 
+  A 0 136 true false [] false [(1, .pre), (2, .pre), (3, .pre), (4, .pre)]  -- init words.go:3 
 ]
 
 /-- var audienceRe -/
-def g136 : List Access := [
-  A 0 136 false false [] false [(1, .pre), (2, .pre), (3, .pre), (4, .pre)],  -- config.parseCfg parsecfg.go:27 
-  A 0 136 true false [] false [(1, .pre), (2, .pre), (3, .pre), (4, .pre)]  -- init parsecfg.go:232 
+def g137 : List Access := [
+  A 0 137 false false [] false [(1, .pre), (2, .pre), (3, .pre), (4, .pre)],  -- config.parseCfg parsecfg.go:27 
+  A 0 137 true false [] false [(1, .pre), (2, .pre), (3, .pre), (4, .pre)]  -- init parsecfg.go:232 
 ]
 
 /-- var automata -/
-def g137 : List Access := [
-  A 0 137 true false [] false [(1, .pre), (2, .pre), (3, .pre), (4, .pre)]  -- init pred_fsm.go:48 
+def g138 : List Access := [
+  A 0 138 true false [] false [(1, .pre), (2, .pre), (3, .pre), (4, .pre)]  -- init pred_fsm.go:48 
 ]
 
 /-- var cleanupDefRe -/
-def g138 : List Access := [
-  A 0 138 false false [] false [(1, .pre), (2, .pre), (3, .pre), (4, .pre)],  -- config.parseRole$1 parsecfg.go:603 
-  A 0 138 true false [] false [(1, .pre), (2, .pre), (3, .pre), (4, .pre)]  -- init parsecfg.go:557 
+def g139 : List Access := [
+  A 0 139 false false [] false [(1, .pre), (2, .pre), (3, .pre), (4, .pre)],  -- config.parseRole$1 parsecfg.go:603 
+  A 0 139 true false [] false [(1, .pre), (2, .pre), (3, .pre), (4, .pre)]  -- init parsecfg.go:557 
 ]
 
 /-- var collectFns -/
-def g139 : List Access := [
-  A 8 139 false false [] true [],  -- audition.processAssignments audit.go:514 
-  A 0 139 true false [] false [(1, .pre), (2, .pre), (3, .pre), (4, .pre)]  -- init functions.go:270 
+def g140 : List Access := [
+  A 8 140 false false [] true [],  -- audition.processAssignments audit.go:514 
+  A 0 140 true false [] false [(1, .pre), (2, .pre), (3, .pre), (4, .pre)]  -- init functions.go:270 
 ]
 
 /-- var collectsRe -/
-def g140 : List Access := [
-  A 0 140 true false [] false [(1, .pre), (2, .pre), (3, .pre), (4, .pre)]  -- init parsecfg.go:237 
+def g141 : List Access := [
+  A 0 141 true false [] false [(1, .pre), (2, .pre), (3, .pre), (4, .pre)]  -- init parsecfg.go:237 
 ]
 
 /-- var computesRe -/
-def g141 : List Access := [
-  A 0 141 true false [] false [(1, .pre), (2, .pre), (3, .pre), (4, .pre)]  -- init parsecfg.go:238 
+def g142 : List Access := [
+  A 0 142 true false [] false [(1, .pre), (2, .pre), (3, .pre), (4, .pre)]  -- init parsecfg.go:238 
 ]
 
 /-- var editRe -/
-def g142 : List Access := [
-  A 0 142 true false [] false [(1, .pre), (2, .pre), (3, .pre), (4, .pre)]  -- init parsecfg.go:823 
+def g143 : List Access := [
+  A 0 143 true false [] false [(1, .pre), (2, .pre), (3, .pre), (4, .pre)]  -- init parsecfg.go:823 
 ]
 
 /-- var entailsRe -/
-def g143 : List Access := [
-  A 0 143 true false [] false [(1, .pre), (2, .pre), (3, .pre), (4, .pre)]  -- init parsecfg.go:820 
+def g144 : List Access := [
+  A 0 144 true false [] false [(1, .pre), (2, .pre), (3, .pre), (4, .pre)]  -- init parsecfg.go:820 
 ]
 
 /-- var errAuditViolation -/
-def g144 : List Access := [
-  A 1 144 false false [] true [(5, .post), (6, .post), (7, .post), (8, .post)],  -- app.conduct$3 conductor.go:49 
-  A 7 144 false false [] true [],  -- collector.checkAuditViolations collector.go:260 
-  A 0 144 true false [] false [(1, .pre), (2, .pre), (3, .pre), (4, .pre)]  -- init collector.go:213 
+def g145 : List Access := [
+  A 1 145 false false [] true [(5, .post), (6, .post), (7, .post), (8, .post)],  -- app.conduct$3 conductor.go:49 
+  A 7 145 false false [] true [],  -- collector.checkAuditViolations collector.go:260 
+  A 0 145 true false [] false [(1, .pre), (2, .pre), (3, .pre), (4, .pre)]  -- init collector.go:213 
 ]
 
 /-- var errInterrupted -/
-def g145 : List Access := [
-  A 0 145 false false [] false [(1, .mid), (2, .pre), (3, .mid), (4, .mid)],  -- app.runConduct run.go:316 
-  A 0 145 false false [] false [(1, .post), (2, .mid), (3, .mid), (4, .mid)],  -- config.run$3 run.go:178 
-  A 0 145 true false [] false [(1, .pre), (2, .pre), (3, .pre), (4, .pre)]  -- init run.go:390 
+def g146 : List Access := [
+  A 0 146 false false [] false [(1, .mid), (2, .pre), (3, .mid), (4, .mid)],  -- app.runConduct run.go:316 
+  A 0 146 false false [] false [(1, .post), (2, .mid), (3, .mid), (4, .mid)],  -- config.run$3 run.go:178 
+  A 0 146 true false [] false [(1, .pre), (2, .pre), (3, .pre), (4, .pre)]  -- init run.go:390 
 ]
 
 /-- var evalFunctions -/
-def g146 : List Access := [
-  A 0 146 true false [] false [(1, .pre), (2, .pre), (3, .pre), (4, .pre)],  -- init functions.go:30 
-  A 0 146 false false [] false [(1, .pre), (2, .pre), (3, .pre), (4, .pre)]  -- init#1 functions.go:263 
+def g147 : List Access := [
+  A 0 147 true false [] false [(1, .pre), (2, .pre), (3, .pre), (4, .pre)],  -- init functions.go:30 
+  A 0 147 false false [] false [(1, .pre), (2, .pre), (3, .pre), (4, .pre)]  -- init#1 functions.go:263 
 ]
 
 /-- var evalFunctions[] -/
-def g147 : List Access := [
-  A 0 147 false false [] false [(1, .pre), (2, .pre), (3, .pre), (4, .pre)],  -- init#1 functions.go:263 
-  A 0 147 true false [] false [(1, .pre), (2, .pre), (3, .pre), (4, .pre)]  -- init#1 functions.go:263 
+def g148 : List Access := [
+  A 0 148 false false [] false [(1, .pre), (2, .pre), (3, .pre), (4, .pre)],  -- init#1 functions.go:263 
+  A 0 148 true false [] false [(1, .pre), (2, .pre), (3, .pre), (4, .pre)]  -- init#1 functions.go:263 
 ]
 
 /-- var expectsRe -/
-def g148 : List Access := [
-  A 0 148 true false [] false [(1, .pre), (2, .pre), (3, .pre), (4, .pre)]  -- init parsecfg.go:239 
+def g149 : List Access := [
+  A 0 149 true false [] false [(1, .pre), (2, .pre), (3, .pre), (4, .pre)]  -- init parsecfg.go:239 
 ]
 
 /-- var expectsSameRe -/
-def g149 : List Access := [
-  A 0 149 true false [] false [(1, .pre), (2, .pre), (3, .pre), (4, .pre)]  -- init parsecfg.go:240 
+def g150 : List Access := [
+  A 0 150 true false [] false [(1, .pre), (2, .pre), (3, .pre), (4, .pre)]  -- init parsecfg.go:240 
 ]
 
 /-- var foulRe -/
-def g150 : List Access := [
-  A 0 150 true false [] false [(1, .pre), (2, .pre), (3, .pre), (4, .pre)]  -- init parsecfg.go:169 
+def g151 : List Access := [
+  A 0 151 true false [] false [(1, .pre), (2, .pre), (3, .pre), (4, .pre)]  -- init parsecfg.go:169 
 ]
 
 /-- var identRe -/
-def g151 : List Access := [
-  A 0 151 false false [] false [(1, .pre), (2, .pre), (3, .pre), (4, .pre)],  -- checkIdent parsecfg.go:1072 
-  A 0 151 true false [] false [(1, .pre), (2, .pre), (3, .pre), (4, .pre)]  -- init parsecfg.go:1084 
+def g152 : List Access := [
+  A 0 152 false false [] false [(1, .pre), (2, .pre), (3, .pre), (4, .pre)],  -- checkIdent parsecfg.go:1072 
+  A 0 152 true false [] false [(1, .pre), (2, .pre), (3, .pre), (4, .pre)]  -- init parsecfg.go:1084 
 ]
 
 /-- var ignoreRe -/
-def g152 : List Access := [
-  A 0 152 true false [] false [(1, .pre), (2, .pre), (3, .pre), (4, .pre)]  -- init parsecfg.go:168 
+def g153 : List Access := [
+  A 0 153 true false [] false [(1, .pre), (2, .pre), (3, .pre), (4, .pre)]  -- init parsecfg.go:168 
 ]
 
 /-- var init$guard -/
-def g153 : List Access := [
-  A 0 153 false false [] false [(1, .pre), (2, .pre), (3, .pre), (4, .pre)],  -- init ? 
-  A 0 153 true false [] false [(1, .pre), (2, .pre), (3, .pre), (4, .pre)]  -- init ? 
+def g154 : List Access := [
+  A 0 154 false false [] false [(1, .pre), (2, .pre), (3, .pre), (4, .pre)],  -- init ? 
+  A 0 154 true false [] false [(1, .pre), (2, .pre), (3, .pre), (4, .pre)]  -- init ? 
 ]
 
 /-- var interpretationRe -/
-def g154 : List Access := [
-  A 0 154 false false [] false [(1, .pre), (2, .pre), (3, .pre), (4, .pre)],  -- config.parseCfg parsecfg.go:28 
-  A 0 154 true false [] false [(1, .pre), (2, .pre), (3, .pre), (4, .pre)]  -- init parsecfg.go:167 
+def g155 : List Access := [
+  A 0 155 false false [] false [(1, .pre), (2, .pre), (3, .pre), (4, .pre)],  -- config.parseCfg parsecfg.go:28 
+  A 0 155 true false [] false [(1, .pre), (2, .pre), (3, .pre), (4, .pre)]  -- init parsecfg.go:167 
 ]
 
 /-- var measuresRe -/
-def g155 : List Access := [
-  A 0 155 true false [] false [(1, .pre), (2, .pre), (3, .pre), (4, .pre)]  -- init parsecfg.go:235 
+def g156 : List Access := [
+  A 0 156 true false [] false [(1, .pre), (2, .pre), (3, .pre), (4, .pre)]  -- init parsecfg.go:235 
 ]
 
 /-- var moodChangeRe -/
-def g156 : List Access := [
-  A 0 156 true false [] false [(1, .pre), (2, .pre), (3, .pre), (4, .pre)]  -- init parsecfg.go:821 
+def g157 : List Access := [
+  A 0 157 true false [] false [(1, .pre), (2, .pre), (3, .pre), (4, .pre)]  -- init parsecfg.go:821 
 ]
 
 /-- var narratorCtx -/
-def g157 : List Access := [
-  A 7 157 false false [] true [],  -- app.narrate app.go:146 
-  A 0 157 false false [] false [(1, .mid), (2, .mid), (3, .mid), (4, .mid)],  -- app.narrate app.go:146 
-  A 0 157 true false [] false [(1, .pre), (2, .pre), (3, .pre), (4, .pre)],  -- init app.go:143 
-  A 10 157 false false [] true [(13, .mid), (14, .mid)],  -- app.narrate app.go:146 
-  A 5 157 false false [] true [(10, .mid)],  -- app.narrate app.go:146 
-  A 11 157 false false [] true [(14, .mid), (15, .post), (16, .mid)]  -- app.narrate app.go:146 
+def g158 : List Access := [
+  A 7 158 false false [] true [],  -- app.narrate app.go:146 
+  A 0 158 false false [] false [(1, .mid), (2, .mid), (3, .mid), (4, .mid)],  -- app.narrate app.go:146 
+  A 0 158 true false [] false [(1, .pre), (2, .pre), (3, .pre), (4, .pre)],  -- init app.go:143 
+  A 10 158 false false [] true [(13, .mid), (14, .mid)],  -- app.narrate app.go:146 
+  A 5 158 false false [] true [(10, .mid)],  -- app.narrate app.go:146 
+  A 11 158 false false [] true [(14, .mid), (15, .post), (16, .mid)]  -- app.narrate app.go:146 
 ]
 
 /-- var noPlotRe -/
-def g158 : List Access := [
-  A 0 158 true false [] false [(1, .pre), (2, .pre), (3, .pre), (4, .pre)]  -- init parsecfg.go:241 
+def g159 : List Access := [
+  A 0 159 true false [] false [(1, .pre), (2, .pre), (3, .pre), (4, .pre)]  -- init parsecfg.go:241 
 ]
 
 /-- var nounsList -/
-def g159 : List Access := [
-  A 0 159 false false [] false [(1, .post), (2, .mid), (3, .mid), (4, .mid)],  -- GenName namegen.go:11 
-  A 0 159 true false [] false [(1, .pre), (2, .pre), (3, .pre), (4, .pre)]  -- init words.go:119 
+def g160 : List Access := [
+  A 0 160 false false [] false [(1, .post), (2, .mid), (3, .mid), (4, .mid)],  -- GenName namegen.go:11 
+  A 0 160 true false [] false [(1, .pre), (2, .pre), (3, .pre), (4, .pre)]  -- init words.go:119 
 ]
 
 /-- var paramRe -/
-def g160 : List Access := [
-  A 0 160 false false [] false [(1, .pre), (2, .pre), (3, .pre), (4, .pre)],  -- config.parseCfg parsecfg.go:53 
-  A 0 160 true false [] false [(1, .pre), (2, .pre), (3, .pre), (4, .pre)]  -- init parsecfg.go:144 
+def g161 : List Access := [
+  A 0 161 false false [] false [(1, .pre), (2, .pre), (3, .pre), (4, .pre)],  -- config.parseCfg parsecfg.go:53 
+  A 0 161 true false [] false [(1, .pre), (2, .pre), (3, .pre), (4, .pre)]  -- init parsecfg.go:144 
 ]
 
 /-- var parseDefRe -/
-def g161 : List Access := [
-  A 0 161 false false [] false [(1, .pre), (2, .pre), (3, .pre), (4, .pre)],  -- config.parseRole$1 parsecfg.go:605 
-  A 0 161 true false [] false [(1, .pre), (2, .pre), (3, .pre), (4, .pre)]  -- init parsecfg.go:558 
+def g162 : List Access := [
+  A 0 162 false false [] false [(1, .pre), (2, .pre), (3, .pre), (4, .pre)],  -- config.parseRole$1 parsecfg.go:605 
+  A 0 162 true false [] false [(1, .pre), (2, .pre), (3, .pre), (4, .pre)]  -- init parsecfg.go:558 
 ]
 
 /-- var preprocRe -/
-def g162 : List Access := [
-  A 0 162 false false [] false [(1, .pre), (2, .pre), (3, .pre), (4, .pre)],  -- config.preprocReplace parsecfg.go:1144 
-  A 0 162 true false [] false [(1, .pre), (2, .pre), (3, .pre), (4, .pre)]  -- init parsecfg.go:1139 
+def g163 : List Access := [
+  A 0 163 false false [] false [(1, .pre), (2, .pre), (3, .pre), (4, .pre)],  -- config.preprocReplace parsecfg.go:1144 
+  A 0 163 true false [] false [(1, .pre), (2, .pre), (3, .pre), (4, .pre)]  -- init parsecfg.go:1139 
 ]
 
 /-- var registry -/
-def g163 : List Access := [
-  A 1 163 false false [] true [(5, .mid), (6, .mid), (7, .mid), (8, .mid), (9, .mid)],  -- runWorker workers.go:83 
-  A 1 163 false false [] false [],  -- runWorker$1 workers.go:89 
-  A 2 163 false false [] false [],  -- showRunning workers.go:68 
-  A 9 163 false false [] true [(12, .pre), (13, .pre), (14, .mid)],  -- runWorker workers.go:83 
-  A 9 163 false false [] false [(13, .mid), (14, .mid)],  -- runWorker$1 workers.go:89 
-  A 8 163 false false [] false [],  -- runWorker$1 workers.go:89 
-  A 7 163 false false [] false [],  -- runWorker$1 workers.go:89 
-  A 0 163 true false [] false [(1, .pre), (2, .pre), (3, .pre), (4, .pre)],  -- init workers.go:38 
-  A 0 163 false false [] false [(1, .mid), (2, .pre), (3, .pre), (4, .mid)],  -- runWorker workers.go:83 
-  A 0 163 false false [] false [(1, .mid), (2, .pre), (3, .mid), (4, .mid)],  -- showRunning workers.go:68 
-  A 10 163 false false [] true [(13, .mid), (14, .mid)],  -- runWorker workers.go:83 
-  A 5 163 false false [] false [],  -- runWorker$1 workers.go:89 
-  A 14 163 false false [] false [],  -- runWorker$1 workers.go:89 
-  A 11 163 false false [] true [(14, .mid), (15, .pre), (16, .pre)],  -- runWorker workers.go:83 
-  A 11 163 false false [] false [(14, .mid), (16, .mid)],  -- runWorker$1 workers.go:89 
-  A 6 163 false false [] true [(11, .mid)],  -- runWorker workers.go:83 
-  A 6 163 false false [] false []  -- runWorker$1 workers.go:89 
+def g164 : List Access := [
+  A 1 164 false false [] true [(5, .mid), (6, .mid), (7, .mid), (8, .mid), (9, .mid)],  -- runWorker workers.go:83 
+  A 1 164 false false [] false [],  -- runWorker$1 workers.go:89 
+  A 2 164 false false [] false [],  -- showRunning workers.go:68 
+  A 9 164 false false [] true [(12, .pre), (13, .pre), (14, .mid)],  -- runWorker workers.go:83 
+  A 9 164 false false [] false [(13, .mid), (14, .mid)],  -- runWorker$1 workers.go:89 
+  A 8 164 false false [] false [],  -- runWorker$1 workers.go:89 
+  A 7 164 false false [] false [],  -- runWorker$1 workers.go:89 
+  A 0 164 true false [] false [(1, .pre), (2, .pre), (3, .pre), (4, .pre)],  -- init workers.go:38 
+  A 0 164 false false [] false [(1, .mid), (2, .pre), (3, .pre), (4, .mid)],  -- runWorker workers.go:83 
+  A 0 164 false false [] false [(1, .mid), (2, .pre), (3, .mid), (4, .mid)],  -- showRunning workers.go:68 
+  A 10 164 false false [] true [(13, .mid), (14, .mid)],  -- runWorker workers.go:83 
+  A 5 164 false false [] false [],  -- runWorker$1 workers.go:89 
+  A 14 164 false false [] false [],  -- runWorker$1 workers.go:89 
+  A 11 164 false false [] true [(14, .mid), (15, .pre), (16, .pre)],  -- runWorker workers.go:83 
+  A 11 164 false false [] false [(14, .mid), (16, .mid)],  -- runWorker$1 workers.go:89 
+  A 6 164 false false [] true [(11, .mid)],  -- runWorker workers.go:83 
+  A 6 164 false false [] false []  -- runWorker$1 workers.go:89 
 ]
 
 /-- var repeatAlwaysRe -/
-def g164 : List Access := [
-  A 0 164 true false [] false [(1, .pre), (2, .pre), (3, .pre), (4, .pre)]  -- init parsecfg.go:816 
+def g165 : List Access := [
+  A 0 165 true false [] false [(1, .pre), (2, .pre), (3, .pre), (4, .pre)]  -- init parsecfg.go:816 
 ]
 
 /-- var repeatCountRe -/
-def g165 : List Access := [
-  A 0 165 true false [] false [(1, .pre), (2, .pre), (3, .pre), (4, .pre)]  -- init parsecfg.go:815 
+def g166 : List Access := [
+  A 0 166 true false [] false [(1, .pre), (2, .pre), (3, .pre), (4, .pre)]  -- init parsecfg.go:815 
 ]
 
 /-- var repeatRe -/
-def g166 : List Access := [
-  A 0 166 true false [] false [(1, .pre), (2, .pre), (3, .pre), (4, .pre)]  -- init parsecfg.go:824 
+def g167 : List Access := [
+  A 0 167 true false [] false [(1, .pre), (2, .pre), (3, .pre), (4, .pre)]  -- init parsecfg.go:824 
 ]
 
 /-- var repeatTimeoutRe -/
-def g167 : List Access := [
-  A 0 167 true false [] false [(1, .pre), (2, .pre), (3, .pre), (4, .pre)]  -- init parsecfg.go:817 
+def g168 : List Access := [
+  A 0 168 true false [] false [(1, .pre), (2, .pre), (3, .pre), (4, .pre)]  -- init parsecfg.go:817 
 ]
 
 /-- var roleRe -/
-def g168 : List Access := [
-  A 0 168 false false [] false [(1, .pre), (2, .pre), (3, .pre), (4, .pre)],  -- config.parseCfg parsecfg.go:63 
-  A 0 168 true false [] false [(1, .pre), (2, .pre), (3, .pre), (4, .pre)]  -- init parsecfg.go:554 
+def g169 : List Access := [
+  A 0 169 false false [] false [(1, .pre), (2, .pre), (3, .pre), (4, .pre)],  -- config.parseCfg parsecfg.go:63 
+  A 0 169 true false [] false [(1, .pre), (2, .pre), (3, .pre), (4, .pre)]  -- init parsecfg.go:554 
 ]
 
 /-- var scriptRe -/
-def g169 : List Access := [
-  A 0 169 false false [] false [(1, .pre), (2, .pre), (3, .pre), (4, .pre)],  -- config.parseCfg parsecfg.go:26 
-  A 0 169 true false [] false [(1, .pre), (2, .pre), (3, .pre), (4, .pre)]  -- init parsecfg.go:813 
+def g170 : List Access := [
+  A 0 170 false false [] false [(1, .pre), (2, .pre), (3, .pre), (4, .pre)],  -- config.parseCfg parsecfg.go:26 
+  A 0 170 true false [] false [(1, .pre), (2, .pre), (3, .pre), (4, .pre)]  -- init parsecfg.go:813 
 ]
 
 /-- var spotlightDefRe -/
-def g170 : List Access := [
-  A 0 170 false false [] false [(1, .pre), (2, .pre), (3, .pre), (4, .pre)],  -- config.parseRole$1 parsecfg.go:601 
-  A 0 170 true false [] false [(1, .pre), (2, .pre), (3, .pre), (4, .pre)]  -- init parsecfg.go:556 
+def g171 : List Access := [
+  A 0 171 false false [] false [(1, .pre), (2, .pre), (3, .pre), (4, .pre)],  -- config.parseRole$1 parsecfg.go:601 
+  A 0 171 true false [] false [(1, .pre), (2, .pre), (3, .pre), (4, .pre)]  -- init parsecfg.go:556 
 ]
 
 /-- var storyLineRe -/
-def g171 : List Access := [
-  A 0 171 true false [] false [(1, .pre), (2, .pre), (3, .pre), (4, .pre)]  -- init parsecfg.go:822 
+def g172 : List Access := [
+  A 0 172 true false [] false [(1, .pre), (2, .pre), (3, .pre), (4, .pre)]  -- init parsecfg.go:822 
 ]
 
 /-- var tempoRe -/
-def g172 : List Access := [
-  A 0 172 true false [] false [(1, .pre), (2, .pre), (3, .pre), (4, .pre)]  -- init parsecfg.go:814 
+def g173 : List Access := [
+  A 0 173 true false [] false [(1, .pre), (2, .pre), (3, .pre), (4, .pre)]  -- init parsecfg.go:814 
 ]
 
 /-- var watchRe -/
-def g173 : List Access := [
-  A 0 173 true false [] false [(1, .pre), (2, .pre), (3, .pre), (4, .pre)]  -- init parsecfg.go:233 
+def g174 : List Access := [
+  A 0 174 true false [] false [(1, .pre), (2, .pre), (3, .pre), (4, .pre)]  -- init parsecfg.go:233 
 ]
 
 /-- var watchVarRe -/
-def g174 : List Access := [
-  A 0 174 true false [] false [(1, .pre), (2, .pre), (3, .pre), (4, .pre)]  -- init parsecfg.go:234 
+def g175 : List Access := [
+  A 0 175 true false [] false [(1, .pre), (2, .pre), (3, .pre), (4, .pre)]  -- init parsecfg.go:234 
 ]
 
 /-- variable.watcherNames -/
-def g175 : List Access := [
-  A 7 175 false false [] true [],  -- collector.collectObservation collector.go:302 
-  A 0 175 false false [] false [(2, .mid), (3, .mid), (4, .mid)],  -- config.printCfg config.go:462 
-  A 0 175 false false [] false [(1, .pre), (2, .pre), (3, .pre), (4, .pre)],  -- variable.maybeAddWatcher config.go:1067 
-  A 0 175 true false [] false [(1, .pre), (2, .pre), (3, .pre), (4, .pre)]  -- variable.maybeAddWatcher config.go:1067 
-]
-
-/-- variable.watcherNames[] -/
 def g176 : List Access := [
-  A 7 176 false false [] true [],  -- collector.collectObservation ? 
-  A 0 176 false false [] false [(2, .mid), (3, .mid), (4, .mid)],  -- config.printCfg ? 
+  A 7 176 false false [] true [],  -- collector.collectObservation collector.go:302 
+  A 0 176 false false [] false [(2, .mid), (3, .mid), (4, .mid)],  -- config.printCfg config.go:462 
+  A 0 176 false false [] false [(1, .pre), (2, .pre), (3, .pre), (4, .pre)],  -- variable.maybeAddWatcher config.go:1067 
   A 0 176 true false [] false [(1, .pre), (2, .pre), (3, .pre), (4, .pre)]  -- variable.maybeAddWatcher config.go:1067 
 ]
 
-/-- variable.watchers[] -/
+/-- variable.watcherNames[] -/
 def g177 : List Access := [
-  A 8 177 false false [] true [],  -- audition.setAndActivateVar audit.go:650 
-  A 7 177 false false [] true [],  -- collector.collectObservation collector.go:303 
-  A 0 177 false false [] false [(1, .pre), (2, .pre), (3, .pre), (4, .pre)],  -- variable.maybeAddWatcher config.go:1063 
-  A 0 177 true false [] false [(1, .pre), (2, .pre), (3, .pre), (4, .pre)]  -- variable.maybeAddWatcher config.go:1066 
+  A 7 177 false false [] true [],  -- collector.collectObservation ? 
+  A 0 177 false false [] false [(2, .mid), (3, .mid), (4, .mid)],  -- config.printCfg ? 
+  A 0 177 true false [] false [(1, .pre), (2, .pre), (3, .pre), (4, .pre)]  -- variable.maybeAddWatcher config.go:1067 
+]
+
+/-- variable.watchers[] -/
+def g178 : List Access := [
+  A 8 178 false false [] true [],  -- audition.setAndActivateVar audit.go:650 
+  A 7 178 false false [] true [],  -- collector.collectObservation collector.go:303 
+  A 0 178 false false [] false [(1, .pre), (2, .pre), (3, .pre), (4, .pre)],  -- variable.maybeAddWatcher config.go:1063 
+  A 0 178 true false [] false [(1, .pre), (2, .pre), (3, .pre), (4, .pre)]  -- variable.maybeAddWatcher config.go:1066 
 ]
 
 /-- workerRegistry.mu.numWorkers -/
-def g178 : List Access := [
-  A 1 178 false false [0] true [(5, .mid), (6, .mid), (7, .mid), (8, .mid), (9, .mid)],  -- workerRegistry.addWorker workers.go:28 
-  A 1 178 true false [0] true [(5, .mid), (6, .mid), (7, .mid), (8, .mid), (9, .mid)],  -- workerRegistry.addWorker workers.go:28 
-  A 1 178 false false [0] false [],  -- workerRegistry.delWorker workers.go:35 
-  A 1 178 true false [0] false [],  -- workerRegistry.delWorker workers.go:35 
-  A 2 178 false false [0] false [],  -- workerRegistry.String workers.go:48 
-  A 9 178 false false [0] true [(12, .pre), (13, .pre), (14, .mid)],  -- workerRegistry.addWorker workers.go:28 
-  A 9 178 true false [0] true [(12, .pre), (13, .pre), (14, .mid)],  -- workerRegistry.addWorker workers.go:28 
-  A 9 178 false false [0] false [(13, .mid), (14, .mid)],  -- workerRegistry.delWorker workers.go:35 
-  A 9 178 true false [0] false [(13, .mid), (14, .mid)],  -- workerRegistry.delWorker workers.go:35 
-  A 8 178 false false [0] false [],  -- workerRegistry.delWorker workers.go:35 
-  A 8 178 true false [0] false [],  -- workerRegistry.delWorker workers.go:35 
-  A 7 178 false false [0] false [],  -- workerRegistry.delWorker workers.go:35 
-  A 7 178 true false [0] false [],  -- workerRegistry.delWorker workers.go:35 
-  A 0 178 false false [0] false [(1, .mid), (2, .pre), (3, .mid), (4, .mid)],  -- workerRegistry.String workers.go:48 
-  A 0 178 false false [0] false [(1, .mid), (2, .pre), (3, .pre), (4, .mid)],  -- workerRegistry.addWorker workers.go:28 
-  A 0 178 true false [0] false [(1, .mid), (2, .pre), (3, .pre), (4, .mid)],  -- workerRegistry.addWorker workers.go:28 
-  A 10 178 false false [0] true [(13, .mid), (14, .mid)],  -- workerRegistry.addWorker workers.go:28 
-  A 10 178 true false [0] true [(13, .mid), (14, .mid)],  -- workerRegistry.addWorker workers.go:28 
-  A 5 178 false false [0] false [],  -- workerRegistry.delWorker workers.go:35 
-  A 5 178 true false [0] false [],  -- workerRegistry.delWorker workers.go:35 
-  A 14 178 false false [0] false [],  -- workerRegistry.delWorker workers.go:35 
-  A 14 178 true false [0] false [],  -- workerRegistry.delWorker workers.go:35 
-  A 11 178 false false [0] true [(14, .mid), (15, .pre), (16, .pre)],  -- workerRegistry.addWorker workers.go:28 
-  A 11 178 true false [0] true [(14, .mid), (15, .pre), (16, .pre)],  -- workerRegistry.addWorker workers.go:28 
-  A 11 178 false false [0] false [(14, .mid), (16, .mid)],  -- workerRegistry.delWorker workers.go:35 
-  A 11 178 true false [0] false [(14, .mid), (16, .mid)],  -- workerRegistry.delWorker workers.go:35 
-  A 6 178 false false [0] true [(11, .mid)],  -- workerRegistry.addWorker workers.go:28 
-  A 6 178 true false [0] true [(11, .mid)],  -- workerRegistry.addWorker workers.go:28 
-  A 6 178 false false [0] false [],  -- workerRegistry.delWorker workers.go:35 
-  A 6 178 true false [0] false []  -- workerRegistry.delWorker workers.go:35 
+def g179 : List Access := [
+  A 1 179 false false [0] true [(5, .mid), (6, .mid), (7, .mid), (8, .mid), (9, .mid)],  -- workerRegistry.addWorker workers.go:28 
+  A 1 179 true false [0] true [(5, .mid), (6, .mid), (7, .mid), (8, .mid), (9, .mid)],  -- workerRegistry.addWorker workers.go:28 
+  A 1 179 false false [0] false [],  -- workerRegistry.delWorker workers.go:35 
+  A 1 179 true false [0] false [],  -- workerRegistry.delWorker workers.go:35 
+  A 2 179 false false [0] false [],  -- workerRegistry.String workers.go:48 
+  A 9 179 false false [0] true [(12, .pre), (13, .pre), (14, .mid)],  -- workerRegistry.addWorker workers.go:28 
+  A 9 179 true false [0] true [(12, .pre), (13, .pre), (14, .mid)],  -- workerRegistry.addWorker workers.go:28 
+  A 9 179 false false [0] false [(13, .mid), (14, .mid)],  -- workerRegistry.delWorker workers.go:35 
+  A 9 179 true false [0] false [(13, .mid), (14, .mid)],  -- workerRegistry.delWorker workers.go:35 
+  A 8 179 false false [0] false [],  -- workerRegistry.delWorker workers.go:35 
+  A 8 179 true false [0] false [],  -- workerRegistry.delWorker workers.go:35 
+  A 7 179 false false [0] false [],  -- workerRegistry.delWorker workers.go:35 
+  A 7 179 true false [0] false [],  -- workerRegistry.delWorker workers.go:35 
+  A 0 179 false false [0] false [(1, .mid), (2, .pre), (3, .mid), (4, .mid)],  -- workerRegistry.String workers.go:48 
+  A 0 179 false false [0] false [(1, .mid), (2, .pre), (3, .pre), (4, .mid)],  -- workerRegistry.addWorker workers.go:28 
+  A 0 179 true false [0] false [(1, .mid), (2, .pre), (3, .pre), (4, .mid)],  -- workerRegistry.addWorker workers.go:28 
+  A 10 179 false false [0] true [(13, .mid), (14, .mid)],  -- workerRegistry.addWorker workers.go:28 
+  A 10 179 true false [0] true [(13, .mid), (14, .mid)],  -- workerRegistry.addWorker workers.go:28 
+  A 5 179 false false [0] false [],  -- workerRegistry.delWorker workers.go:35 
+  A 5 179 true false [0] false [],  -- workerRegistry.delWorker workers.go:35 
+  A 14 179 false false [0] false [],  -- workerRegistry.delWorker workers.go:35 
+  A 14 179 true false [0] false [],  -- workerRegistry.delWorker workers.go:35 
+  A 11 179 false false [0] true [(14, .mid), (15, .pre), (16, .pre)],  -- workerRegistry.addWorker workers.go:28 
+  A 11 179 true false [0] true [(14, .mid), (15, .pre), (16, .pre)],  -- workerRegistry.addWorker workers.go:28 
+  A 11 179 false false [0] false [(14, .mid), (16, .mid)],  -- workerRegistry.delWorker workers.go:35 
+  A 11 179 true false [0] false [(14, .mid), (16, .mid)],  -- workerRegistry.delWorker workers.go:35 
+  A 6 179 false false [0] true [(11, .mid)],  -- workerRegistry.addWorker workers.go:28 
+  A 6 179 true false [0] true [(11, .mid)],  -- workerRegistry.addWorker workers.go:28 
+  A 6 179 false false [0] false [],  -- workerRegistry.delWorker workers.go:35 
+  A 6 179 true false [0] false []  -- workerRegistry.delWorker workers.go:35 
 ]
 
 /-- workerRegistry.mu.workers[] -/
-def g179 : List Access := [
-  A 1 179 false false [0] true [(5, .mid), (6, .mid), (7, .mid), (8, .mid), (9, .mid)],  -- workerRegistry.addWorker workers.go:27 
-  A 1 179 true false [0] true [(5, .mid), (6, .mid), (7, .mid), (8, .mid), (9, .mid)],  -- workerRegistry.addWorker workers.go:27 
-  A 1 179 false false [0] false [],  -- workerRegistry.delWorker workers.go:34 
-  A 1 179 true false [0] false [],  -- workerRegistry.delWorker workers.go:34 
-  A 2 179 false false [0] false [],  -- workerRegistry.String workers.go:53 
-  A 9 179 false false [0] true [(12, .pre), (13, .pre), (14, .mid)],  -- workerRegistry.addWorker workers.go:27 
-  A 9 179 true false [0] true [(12, .pre), (13, .pre), (14, .mid)],  -- workerRegistry.addWorker workers.go:27 
-  A 9 179 false false [0] false [(13, .mid), (14, .mid)],  -- workerRegistry.delWorker workers.go:34 
-  A 9 179 true false [0] false [(13, .mid), (14, .mid)],  -- workerRegistry.delWorker workers.go:34 
-  A 8 179 false false [0] false [],  -- workerRegistry.delWorker workers.go:34 
-  A 8 179 true false [0] false [],  -- workerRegistry.delWorker workers.go:34 
-  A 7 179 false false [0] false [],  -- workerRegistry.delWorker workers.go:34 
-  A 7 179 true false [0] false [],  -- workerRegistry.delWorker workers.go:34 
-  A 0 179 false false [0] false [(1, .mid), (2, .pre), (3, .mid), (4, .mid)],  -- workerRegistry.String workers.go:53 
-  A 0 179 false false [0] false [(1, .mid), (2, .pre), (3, .pre), (4, .mid)],  -- workerRegistry.addWorker workers.go:27 
-  A 0 179 true false [0] false [(1, .mid), (2, .pre), (3, .pre), (4, .mid)],  -- workerRegistry.addWorker workers.go:27 
-  A 10 179 false false [0] true [(13, .mid), (14, .mid)],  -- workerRegistry.addWorker workers.go:27 
-  A 10 179 true false [0] true [(13, .mid), (14, .mid)],  -- workerRegistry.addWorker workers.go:27 
-  A 5 179 false false [0] false [],  -- workerRegistry.delWorker workers.go:34 
-  A 5 179 true false [0] false [],  -- workerRegistry.delWorker workers.go:34 
-  A 14 179 false false [0] false [],  -- workerRegistry.delWorker workers.go:34 
-  A 14 179 true false [0] false [],  -- workerRegistry.delWorker workers.go:34 
-  A 11 179 false false [0] true [(14, .mid), (15, .pre), (16, .pre)],  -- workerRegistry.addWorker workers.go:27 
-  A 11 179 true false [0] true [(14, .mid), (15, .pre), (16, .pre)],  -- workerRegistry.addWorker workers.go:27 
-  A 11 179 false false [0] false [(14, .mid), (16, .mid)],  -- workerRegistry.delWorker workers.go:34 
-  A 11 179 true false [0] false [(14, .mid), (16, .mid)],  -- workerRegistry.delWorker workers.go:34 
-  A 6 179 false false [0] true [(11, .mid)],  -- workerRegistry.addWorker workers.go:27 
-  A 6 179 true false [0] true [(11, .mid)],  -- workerRegistry.addWorker workers.go:27 
-  A 6 179 false false [0] false [],  -- workerRegistry.delWorker workers.go:34 
-  A 6 179 true false [0] false []  -- workerRegistry.delWorker workers.go:34 
+def g180 : List Access := [
+  A 1 180 false false [0] true [(5, .mid), (6, .mid), (7, .mid), (8, .mid), (9, .mid)],  -- workerRegistry.addWorker workers.go:27 
+  A 1 180 true false [0] true [(5, .mid), (6, .mid), (7, .mid), (8, .mid), (9, .mid)],  -- workerRegistry.addWorker workers.go:27 
+  A 1 180 false false [0] false [],  -- workerRegistry.delWorker workers.go:34 
+  A 1 180 true false [0] false [],  -- workerRegistry.delWorker workers.go:34 
+  A 2 180 false false [0] false [],  -- workerRegistry.String workers.go:53 
+  A 9 180 false false [0] true [(12, .pre), (13, .pre), (14, .mid)],  -- workerRegistry.addWorker workers.go:27 
+  A 9 180 true false [0] true [(12, .pre), (13, .pre), (14, .mid)],  -- workerRegistry.addWorker workers.go:27 
+  A 9 180 false false [0] false [(13, .mid), (14, .mid)],  -- workerRegistry.delWorker workers.go:34 
+  A 9 180 true false [0] false [(13, .mid), (14, .mid)],  -- workerRegistry.delWorker workers.go:34 
+  A 8 180 false false [0] false [],  -- workerRegistry.delWorker workers.go:34 
+  A 8 180 true false [0] false [],  -- workerRegistry.delWorker workers.go:34 
+  A 7 180 false false [0] false [],  -- workerRegistry.delWorker workers.go:34 
+  A 7 180 true false [0] false [],  -- workerRegistry.delWorker workers.go:34 
+  A 0 180 false false [0] false [(1, .mid), (2, .pre), (3, .mid), (4, .mid)],  -- workerRegistry.String workers.go:53 
+  A 0 180 false false [0] false [(1, .mid), (2, .pre), (3, .pre), (4, .mid)],  -- workerRegistry.addWorker workers.go:27 
+  A 0 180 true false [0] false [(1, .mid), (2, .pre), (3, .pre), (4, .mid)],  -- workerRegistry.addWorker workers.go:27 
+  A 10 180 false false [0] true [(13, .mid), (14, .mid)],  -- workerRegistry.addWorker workers.go:27 
+  A 10 180 true false [0] true [(13, .mid), (14, .mid)],  -- workerRegistry.addWorker workers.go:27 
+  A 5 180 false false [0] false [],  -- workerRegistry.delWorker workers.go:34 
+  A 5 180 true false [0] false [],  -- workerRegistry.delWorker workers.go:34 
+  A 14 180 false false [0] false [],  -- workerRegistry.delWorker workers.go:34 
+  A 14 180 true false [0] false [],  -- workerRegistry.delWorker workers.go:34 
+  A 11 180 false false [0] true [(14, .mid), (15, .pre), (16, .pre)],  -- workerRegistry.addWorker workers.go:27 
+  A 11 180 true false [0] true [(14, .mid), (15, .pre), (16, .pre)],  -- workerRegistry.addWorker workers.go:27 
+  A 11 180 false false [0] false [(14, .mid), (16, .mid)],  -- workerRegistry.delWorker workers.go:34 
+  A 11 180 true false [0] false [(14, .mid), (16, .mid)],  -- workerRegistry.delWorker workers.go:34 
+  A 6 180 false false [0] true [(11, .mid)],  -- workerRegistry.addWorker workers.go:27 
+  A 6 180 true false [0] true [(11, .mid)],  -- workerRegistry.addWorker workers.go:27 
+  A 6 180 false false [0] false [],  -- workerRegistry.delWorker workers.go:34 
+  A 6 180 true false [0] false []  -- workerRegistry.delWorker workers.go:34 
 ]
 
 def groups : List (List Access) := [
@@ -1981,7 +1988,7 @@ def groups : List (List Access) := [
   g128, g129, g130, g131, g132, g133, g134, g135, g136, g137, g138, g139, g140, g141, g142, g143, 
   g144, g145, g146, g147, g148, g149, g150, g151, g152, g153, g154, g155, g156, g157, g158, g159, 
   g160, g161, g162, g163, g164, g165, g166, g167, g168, g169, g170, g171, g172, g173, g174, g175, 
-  g176, g177, g178, g179]
+  g176, g177, g178, g179, g180]
 
 /-- locations written, in some function, after a pointer to the object was sent on a channel there -/
 def sentThenWritten : List Nat := []
